@@ -487,14 +487,73 @@ structure Inv (P : BDParams) (s : BDState) : Prop where
   pos : 1 ≤ s.extant.length
   cap : ∀ n, P.nTips = some n → 1 ≤ n → s.extant.length ≤ n
 
-theorem bd_init_inv (P : BDParams) : Inv P (bdInit P) := by
-  refine ⟨by simp [bdInit, BT.aliveCount], ⟨0, by simp [bdInit, BT.aliveDepths]⟩, by simp [bdInit], ?_⟩
-  intro n _ h; simpa [bdInit] using h
+/-- admissible `tree=` argument (start tree) for the given stopping rules: at least one extant tip, extant tips equidistant
+and no extinct tip deeper, not more tips than the rules ask for, distinct ids on the extant tips, no unary node.
+The default start (a single fresh seed node) is admissible: `goodStart_default`. -/
+structure GoodStart (P : BDParams) : Prop where
+  alive1 : 1 ≤ P.start.aliveCount
+  equi : ∃ D, (∀ d ∈ P.start.aliveDepths, d = D) ∧ (∀ d ∈ P.start.deadDepths, d ≤ D)
+  capN : ∀ n, P.nTips = some n → 1 ≤ n → P.start.aliveCount ≤ n
+  capX : ∀ k, P.nExtinct = some k → 1 ≤ k → P.start.deadIds.length ≤ k
+  capT : ∀ k, P.nTotal = some k → 1 ≤ k → P.start.aliveCount + P.start.deadIds.length ≤ k
+  nodup : P.start.aliveIds.Nodup
+  noUn : P.start.noUn = true
+
+theorem goodStart_default (P : BDParams) (h : P.start = .tip 0 0 true) : GoodStart P := by
+  refine ⟨by simp [h, BT.aliveCount], ⟨0, by simp [h, BT.aliveDepths], by simp [h, BT.deadDepths]⟩, ?_, by simp [h, BT.deadIds],
+    ?_, by simp [h, BT.aliveIds], by simp [h, BT.noUn]⟩
+  · intro n _ h1; simpa [h, BT.aliveCount] using h1
+  · intro k _ h1; simpa [h, BT.aliveCount, BT.deadIds] using h1
+
+namespace Aux
+theorem aliveIds_length (t : BT) : t.aliveIds.length = t.aliveCount := by
+  induction t with
+  | tip i l a => cases a <;> simp [BT.aliveIds, BT.aliveCount]
+  | un i l c ih => simpa [BT.aliveIds, BT.aliveCount] using ih
+  | bin i l x y ihx ihy => simp [BT.aliveIds, BT.aliveCount, ihx, ihy]
+
+theorem deadIds_length (t : BT) : t.deadIds.length + t.aliveCount = t.nLeaves := by
+  induction t with
+  | tip i l a => cases a <;> simp [BT.deadIds, BT.aliveCount, BT.nLeaves]
+  | un i l c ih => simpa [BT.deadIds, BT.aliveCount, BT.nLeaves] using ih
+  | bin i l x y ihx ihy => simp [BT.deadIds, BT.aliveCount, BT.nLeaves]; omega
+
+theorem aliveIds_le (t : BT) : ∀ i ∈ t.aliveIds, i ≤ t.maxId := by
+  induction t with
+  | tip j l a => intro i hi; cases a <;> simp [BT.aliveIds] at hi; simp [BT.maxId, hi]
+  | un j l c ih =>
+    intro i hi
+    exact Nat.le_trans (ih i (by simpa [BT.aliveIds] using hi)) (Nat.le_max_right _ _)
+  | bin j l x y ihx ihy =>
+    intro i hi
+    simp only [BT.aliveIds, List.mem_append] at hi
+    simp only [BT.maxId]
+    rcases hi with h | h
+    · exact Nat.le_trans (ihx i h) (Nat.le_trans (Nat.le_max_left _ _) (Nat.le_max_right _ _))
+    · exact Nat.le_trans (ihy i h) (Nat.le_trans (Nat.le_max_right _ _) (Nat.le_max_right _ _))
+
+theorem hasAlive_of_mem (t : BT) : ∀ i ∈ t.aliveIds, t.hasAlive i = true := by
+  induction t with
+  | tip j l a => intro i hi; cases a <;> simp [BT.aliveIds] at hi; simp [BT.hasAlive, hi]
+  | un j l c ih => intro i hi; simpa [BT.hasAlive] using ih i (by simpa [BT.aliveIds] using hi)
+  | bin j l x y ihx ihy =>
+    intro i hi
+    simp only [BT.aliveIds, List.mem_append] at hi
+    simp only [BT.hasAlive, Bool.or_eq_true]
+    rcases hi with h | h
+    · exact Or.inl (ihx i h)
+    · exact Or.inr (ihy i h)
+end Aux
+
+theorem bd_init_inv (P : BDParams) (hG : GoodStart P) : Inv P (bdInit P) := by
+  obtain ⟨D, hD, _⟩ := hG.equi
+  refine ⟨by simp [bdInit, Aux.aliveIds_length], ⟨D, by simpa [bdInit] using hD⟩, by simpa [bdInit, Aux.aliveIds_length] using hG.alive1, ?_⟩
+  intro n hn h1; simpa [bdInit, Aux.aliveIds_length] using hG.capN n hn h1
 
 /-- the restart after total extinction re-establishes the invariant from *any* state -/
-theorem restart_resets (P : BDParams) (s : BDState) : Inv P (bdRestart P s) := by
-  refine ⟨by simp [bdRestart, BT.aliveCount], ⟨s.tree.len, by simp [bdRestart, BT.aliveDepths]⟩, by simp [bdRestart], ?_⟩
-  intro n _ h; simpa [bdRestart] using h
+theorem restart_resets (P : BDParams) (hG : GoodStart P) (s : BDState) : Inv P (bdRestart P s) := by
+  have := bd_init_inv P hG
+  exact ⟨this.count, this.depth, this.pos, this.cap⟩
 
 namespace Aux
 theorem stop_false_cap (P : BDParams) (k : Nat) (tot : Int) (h : bdStop P k tot = false) :
@@ -529,7 +588,7 @@ theorem birth_inv (P : BDParams) (s s' : BDState) (nd : Tip) (ds ds' : List Draw
       · simp; omega
   · simp at h
 
-theorem death_inv (P : BDParams) (s s' : BDState) (nd : Tip) (ds ds' : List Draw)
+theorem death_inv (P : BDParams) (hG : GoodStart P) (s s' : BDState) (nd : Tip) (ds ds' : List Draw)
     (hcount : s.extant.length = s.tree.aliveCount) (c : Int) (hdepth : ∀ d ∈ s.tree.aliveDepths, d = s.total + c)
     (hmem : ∃ t ∈ s.extant, t.id = nd.id) (hlt : ∀ n, P.nTips = some n → s.extant.length < n)
     (h : bdDeath P s nd (removeTip nd.id s.extant) ds = .ok (.cont s' ds')) : Inv P s' ∧ ds'.length ≤ ds.length := by
@@ -538,7 +597,7 @@ theorem death_inv (P : BDParams) (s s' : BDState) (nd : Tip) (ds ds' : List Draw
   split at h
   · simp at h
     obtain ⟨rfl, rfl⟩ := h
-    exact ⟨restart_resets P _, by simp⟩
+    exact ⟨restart_resets P hG _, by simp⟩
   · rename_i hne
     split at h
     · simp at h
@@ -560,7 +619,7 @@ theorem death_inv (P : BDParams) (s s' : BDState) (nd : Tip) (ds ds' : List Draw
         simp; omega
       · simp
 
-theorem event_inv (P : BDParams) (s s' : BDState) (ds ds' : List Draw)
+theorem event_inv (P : BDParams) (hG : GoodStart P) (s s' : BDState) (ds ds' : List Draw)
     (hcount : s.extant.length = s.tree.aliveCount) (c : Int) (hdepth : ∀ d ∈ s.tree.aliveDepths, d = s.total + c)
     (hlt : ∀ n, P.nTips = some n → s.extant.length < n)
     (h : bdEvent P s ds = .ok (.cont s' ds')) : Inv P s' ∧ ds'.length < ds.length := by
@@ -580,13 +639,13 @@ theorem event_inv (P : BDParams) (s s' : BDState) (ds ds' : List Draw)
         split at h
         · have := birth_inv P s s' nd ds2 ds' hcount c hdepth hmem hlt h
           exact ⟨this.1, by simp; omega⟩
-        · have := death_inv P s s' nd ds2 ds' hcount c hdepth hmem hlt h
+        · have := death_inv P hG s s' nd ds2 ds' hcount c hdepth hmem hlt h
           exact ⟨this.1, by simp; omega⟩
   · simp at h
 end Aux
 
 /-- one pass through the loop body keeps the invariant and consumes at least one draw -/
-theorem bd_inv (P : BDParams) (s s' : BDState) (ds ds' : List Draw) (hI : Inv P s)
+theorem bd_inv (P : BDParams) (hG : GoodStart P) (s s' : BDState) (ds ds' : List Draw) (hI : Inv P s)
     (h : bdIter P s ds = .ok (.cont s' ds')) : Inv P s' ∧ ds'.length < ds.length := by
   obtain ⟨hcount, ⟨c, hdepth⟩, hpos, hcap⟩ := hI
   unfold bdIter at h
@@ -594,7 +653,7 @@ theorem bd_inv (P : BDParams) (s s' : BDState) (ds ds' : List Draw) (hI : Inv P 
   · simp at h
   rename_i hstop
   simp at hstop
-  have hlt := Aux.stop_false_cap P _ _ hstop
+  have hlt := Aux.stop_false_cap P _ _ hstop.1
   split at h
   · simp at h
   · rename_i w ds1
@@ -609,7 +668,7 @@ theorem bd_inv (P : BDParams) (s s' : BDState) (ds ds' : List Draw) (hI : Inv P 
       omega
     simp only at h
     split at h
-    · have := Aux.event_inv P _ s' ds1 ds' (by simpa [Aux.aliveCount_addAlive] using hcount) c (by simpa using hd1) (by simpa using hlt) h
+    · have := Aux.event_inv P hG _ s' ds1 ds' (by simpa [Aux.aliveCount_addAlive] using hcount) c (by simpa using hd1) (by simpa using hlt) h
       exact ⟨this.1, by simp; omega⟩
     · simp at h
       obtain ⟨rfl, rfl⟩ := h
@@ -623,7 +682,7 @@ theorem bd_inv (P : BDParams) (s s' : BDState) (ds ds' : List Draw) (hI : Inv P 
 
 /-- leaving the loop: the state is unchanged and a termination test holds -/
 theorem bd_done (P : BDParams) (s s' : BDState) (ds ds' : List Draw) (h : bdIter P s ds = .ok (.done s' ds')) :
-    s' = s ∧ ds' = ds ∧ bdStop P s.extant.length s.total = true := by
+    s' = s ∧ ds' = ds ∧ (bdStop P s.extant.length s.total || xStop P s.extant.length s.extinct.length) = true := by
   unfold bdIter at h
   split at h
   · rename_i hs
@@ -660,8 +719,8 @@ theorem bd_done (P : BDParams) (s s' : BDState) (ds ds' : List Draw) (h : bdIter
     · simp at h
 
 /-- the whole loop: on exit the invariant holds and a termination test fired -/
-theorem bd_loop_inv (P : BDParams) : ∀ (f : Nat) (s s' : BDState) (ds ds' : List Draw), Inv P s →
-    bdLoop P f s ds = .ok (s', ds') → Inv P s' ∧ bdStop P s'.extant.length s'.total = true := by
+theorem bd_loop_inv (P : BDParams) (hG : GoodStart P) : ∀ (f : Nat) (s s' : BDState) (ds ds' : List Draw), Inv P s →
+    bdLoop P f s ds = .ok (s', ds') → Inv P s' ∧ (bdStop P s'.extant.length s'.total || xStop P s'.extant.length s'.extinct.length) = true := by
   intro f
   induction f with
   | zero => intro s s' ds ds' _ h; simp [bdLoop] at h
@@ -676,12 +735,12 @@ theorem bd_loop_inv (P : BDParams) : ∀ (f : Nat) (s s' : BDState) (ds ds' : Li
       obtain ⟨rfl, _, hs⟩ := bd_done P s s1 ds ds1 hit
       exact ⟨hI, hs⟩
     · rename_i s1 ds1 hit
-      exact ih s1 s' ds1 ds' (bd_inv P s s1 ds ds1 hI hit).1 h
+      exact ih s1 s' ds1 ds' (bd_inv P hG s s1 ds ds1 hI hit).1 h
 
 
 
 /-- the fuel `draws.length + 1` given by `bdRun` is never exhausted: every pass consumes a draw -/
-theorem bd_fuel_suffices (P : BDParams) : ∀ (f : Nat) (s : BDState) (ds : List Draw), Inv P s → ds.length < f →
+theorem bd_fuel_suffices (P : BDParams) (hG : GoodStart P) : ∀ (f : Nat) (s : BDState) (ds : List Draw), Inv P s → ds.length < f →
     bdLoop P f s ds ≠ .error .fuel := by
   intro f
   induction f with
@@ -697,7 +756,7 @@ theorem bd_fuel_suffices (P : BDParams) : ∀ (f : Nat) (s : BDState) (ds : List
       exact Aux.iter_not_fuel P s ds he
     · simp
     · rename_i s1 ds1 hit
-      have := bd_inv P s s1 ds ds1 hI hit
+      have := bd_inv P hG s s1 ds ds1 hI hit
       exact ih s1 ds1 this.1 (by omega)
 
 namespace Aux
@@ -727,7 +786,7 @@ end Aux
 constructor: it is bifurcating), every leaf is an extant tip, all leaves lie at one and the same depth below the top of
 the seed edge (hence at the same distance from the root), every leaf position `0..nLeaves-1` receives a taxon, and
 the taxa are pairwise distinct. -/
-theorem bd_result (P : BDParams) (n0 : Nat) (ds : List Draw) (r : SimResult) (h : bdRun P n0 ds = .ok r) :
+theorem bd_result (P : BDParams) (hG : GoodStart P) (n0 : Nat) (ds : List Draw) (r : SimResult) (hr : P.retain = false) (h : bdRun P n0 ds = .ok r) :
     r.tree.noUn = true ∧ r.tree.aliveCount = r.tree.nLeaves ∧ r.tree.aliveDepths.length = r.tree.nLeaves ∧
     (∃ D, ∀ d ∈ r.tree.aliveDepths, d = D) ∧
     (r.taxa.map Prod.snd).Nodup ∧ isPerm r.tree.nLeaves (r.taxa.map Prod.fst) = true := by
@@ -735,33 +794,37 @@ theorem bd_result (P : BDParams) (n0 : Nat) (ds : List Draw) (r : SimResult) (h 
   split at h
   · simp at h
   · rename_i s rest hl
-    obtain ⟨hI, _⟩ := bd_loop_inv P _ _ _ _ _ (bd_init_inv P) hl
+    obtain ⟨hI, _⟩ := bd_loop_inv P hG _ _ _ _ _ (bd_init_inv P hG) hl
+    simp only [hr, Bool.false_eq_true, if_false] at h
     obtain ⟨f1, f2, f3, f4, f5, f6⟩ := Aux.finish_props n0 s.tree rest r h
     obtain ⟨c, hc⟩ := hI.depth
     refine ⟨f1, f3, by rw [Aux.aliveDepths_length, f3], ⟨s.total + c, by rw [f4]; exact hc⟩, f5, f6⟩
 
 /-- **grown to N extant tips** (`num_extant_tips = N ≥ 1`, no `max_time`): exactly `N` leaves -/
-theorem bd_result_count (P : BDParams) (n0 n : Nat) (ds : List Draw) (r : SimResult) (h : bdRun P n0 ds = .ok r)
-    (hn : P.nTips = some n) (h1 : 1 ≤ n) (hm : P.maxTime = none) : r.tree.nLeaves = n := by
+theorem bd_result_count (P : BDParams) (hG : GoodStart P) (n0 n : Nat) (ds : List Draw) (r : SimResult) (h : bdRun P n0 ds = .ok r)
+    (hn : P.nTips = some n) (h1 : 1 ≤ n) (hm : P.maxTime = none) (hx : P.nExtinct = none) (ht : P.nTotal = none)
+    (hr : P.retain = false) : r.tree.nLeaves = n := by
   unfold bdRun at h
   split at h
   · simp at h
   · rename_i s rest hl
-    obtain ⟨hI, hstop⟩ := bd_loop_inv P _ _ _ _ _ (bd_init_inv P) hl
+    obtain ⟨hI, hstop⟩ := bd_loop_inv P hG _ _ _ _ _ (bd_init_inv P hG) hl
+    simp only [hr, Bool.false_eq_true, if_false] at h
     obtain ⟨f1, f2, f3, f4, f5, f6⟩ := Aux.finish_props n0 s.tree rest r h
     have hcap := hI.cap n hn h1
-    simp [bdStop, hn, hm] at hstop
+    simp [bdStop, xStop, hn, hm, hx, ht] at hstop
     rw [f2, ← hI.count]
     omega
 
 /-- with `max_time` as well, the tip-count rule still caps the tree at `N` leaves -/
-theorem bd_result_count_le (P : BDParams) (n0 n : Nat) (ds : List Draw) (r : SimResult) (h : bdRun P n0 ds = .ok r)
-    (hn : P.nTips = some n) (h1 : 1 ≤ n) : 1 ≤ r.tree.nLeaves ∧ r.tree.nLeaves ≤ n := by
+theorem bd_result_count_le (P : BDParams) (hG : GoodStart P) (n0 n : Nat) (ds : List Draw) (r : SimResult) (h : bdRun P n0 ds = .ok r)
+    (hn : P.nTips = some n) (h1 : 1 ≤ n) (hr : P.retain = false) : 1 ≤ r.tree.nLeaves ∧ r.tree.nLeaves ≤ n := by
   unfold bdRun at h
   split at h
   · simp at h
   · rename_i s rest hl
-    obtain ⟨hI, hstop⟩ := bd_loop_inv P _ _ _ _ _ (bd_init_inv P) hl
+    obtain ⟨hI, hstop⟩ := bd_loop_inv P hG _ _ _ _ _ (bd_init_inv P hG) hl
+    simp only [hr, Bool.false_eq_true, if_false] at h
     obtain ⟨f1, f2, f3, f4, f5, f6⟩ := Aux.finish_props n0 s.tree rest r h
     have hcap := hI.cap n hn h1
     have := hI.pos
@@ -772,9 +835,9 @@ theorem bd_result_count_le (P : BDParams) (n0 n : Nat) (ds : List Draw) (r : Sim
 def rootDists (t : BT) : List Int := t.aliveDepths.map (· - t.len)
 
 /-- equidistance from the root, in the form the statement uses -/
-theorem bd_result_root (P : BDParams) (n0 : Nat) (ds : List Draw) (r : SimResult) (h : bdRun P n0 ds = .ok r) :
+theorem bd_result_root (P : BDParams) (hG : GoodStart P) (n0 : Nat) (ds : List Draw) (r : SimResult) (hr : P.retain = false) (h : bdRun P n0 ds = .ok r) :
     ∃ D, ∀ d ∈ rootDists r.tree, d = D := by
-  obtain ⟨_, _, _, ⟨D, hD⟩, _⟩ := bd_result P n0 ds r h
+  obtain ⟨_, _, _, ⟨D, hD⟩, _⟩ := bd_result P hG n0 ds r hr h
   refine ⟨D - r.tree.len, ?_⟩
   intro d hd
   simp only [rootDists, List.mem_map] at hd
@@ -782,14 +845,14 @@ theorem bd_result_root (P : BDParams) (n0 : Nat) (ds : List Draw) (r : SimResult
   rw [hD e he]
 
 /-- non-vacuity: a run with a death of one of two lineages, then a birth; 3 tips at equal depth, distinct taxa -/
-example : (bdRun ⟨some 3, none, 2, 1⟩ 1
+example : (bdRun { nTips := some 3, maxTime := none, b := 2, d := 1 } 1
     [.w 4, .u 1 8, .g 0, .g 0, .g 0, .g 0, .w 2, .u 7 8, .w 1, .u 1 8, .g 0, .g 0, .g 0, .g 0,
      .w 3, .u 1 8, .g 0, .g 0, .g 0, .g 0, .perm [0], .perm [2, 0, 1]]).toOption.map
       (fun r => (r.tree.nLeaves, r.tree.aliveDepths, r.taxa)) = some (3, [10, 10, 10], [(2, 0), (0, 1), (1, 2)]) := by decide
 
 /-- non-vacuity: total extinction of the single lineage, restart, then growth to two tips -/
-example : (bdRun ⟨some 2, none, 2, 1⟩ 0 [.w 4, .u 7 8, .w 1, .u 1 8, .g 0, .g 0, .g 0, .g 0, .perm [], .perm [1, 0]]).toOption.map
-      (fun r => (r.tree.nLeaves, r.tree.len, rootDists r.tree)) = some (2, 5, [0, 0]) := by decide
+example : (bdRun { nTips := some 2, maxTime := none, b := 2, d := 1 } 0 [.w 4, .u 7 8, .w 1, .u 1 8, .g 0, .g 0, .g 0, .g 0, .perm [], .perm [1, 0]]).toOption.map
+      (fun r => (r.tree.nLeaves, r.tree.len, rootDists r.tree)) = some (2, 1, [0, 0]) := by decide
 
 /-! ### `fast_birth_death_tree` -/
 
@@ -1101,7 +1164,7 @@ theorem fbd_result (P : BDParams) (n0 : Nat) (ds : List Draw) (r : SimResult) (h
     rw [f2, Aux.closeAlive_count, ← hI.count]
     omega
 
-example : (fbdRun ⟨some 2, none, 2, 1⟩ 0 [.w 4, .rint 0, .u 7 8, .w 1, .rint 0, .u 1 8, .perm [], .perm [1, 0]]).toOption.map
+example : (fbdRun { nTips := some 2, maxTime := none, b := 2, d := 1 } 0 [.w 4, .rint 0, .u 7 8, .w 1, .rint 0, .u 1 8, .perm [], .perm [1, 0]]).toOption.map
       (fun r => (r.tree.nLeaves, r.tree.aliveDepths)) = some (2, [1, 1]) := by decide
 
 /-! ### `uniform_pure_birth_tree` -/
@@ -2226,11 +2289,6 @@ theorem containedRU_no_early_join (S : ST) (numGenes : Nat) (ds : List Draw) (g 
 /-! ### no internal failure, progress, leaf sets (added after the audit) -/
 
 
-/-- some tip flagged alive carries id `i` -/
-def BT.hasAlive (i : Nat) : BT → Bool
-  | .tip j _ a => a && j == i
-  | .un _ _ c => hasAlive i c
-  | .bin _ _ x y => hasAlive i x || hasAlive i y
 
 namespace Aux
 theorem hasAlive_addAlive (i : Nat) (w : Int) (t : BT) : (t.addAlive w).hasAlive i = t.hasAlive i := by
@@ -2434,9 +2492,34 @@ structure SInv (P : BDParams) (s : BDState) : Prop where
   alive : ∀ t ∈ s.extant, s.tree.hasAlive t.id = true
   rates : ∀ t ∈ s.extant, P.b ≤ t.br ∧ P.d ≤ t.dr
   ne : s.extant ≠ []
+  nextLB : P.start.maxId < s.next
 
-theorem bd_init_sinv (P : BDParams) : SInv P (bdInit P) := by
-  refine ⟨by simp [bdInit], by simp [bdInit], by simp [bdInit, BT.hasAlive], by simp [bdInit], by simp [bdInit]⟩
+namespace Aux
+theorem init_sinv_at (P : BDParams) (hG : GoodStart P) (nx : Nat) (h : P.start.maxId < nx) : SInv P { bdInit P with next := nx } := by
+  refine ⟨?_, ?_, ?_, ?_, ?_, h⟩
+  · simpa [bdInit, List.map_map, Function.comp_def] using hG.nodup
+  · intro t ht
+    simp only [bdInit, List.mem_map] at ht
+    obtain ⟨i, hi, rfl⟩ := ht
+    have := aliveIds_le P.start i hi
+    show i < nx; omega
+  · intro t ht
+    simp only [bdInit, List.mem_map] at ht
+    obtain ⟨i, hi, rfl⟩ := ht
+    exact hasAlive_of_mem P.start i hi
+  · intro t ht
+    simp only [bdInit, List.mem_map] at ht
+    obtain ⟨i, hi, rfl⟩ := ht
+    simp
+  · have := hG.alive1
+    rw [← aliveIds_length] at this
+    intro he
+    simp only [bdInit, List.map_eq_nil_iff] at he
+    rw [he] at this; simp at this
+end Aux
+
+theorem bd_init_sinv (P : BDParams) (hG : GoodStart P) : SInv P (bdInit P) :=
+  Aux.init_sinv_at P hG _ (by simp [bdInit])
 
 
 /-- draws the scripted generator can serve for `gauss`: never lowering a rate -/
@@ -2462,7 +2545,7 @@ theorem sbirth (P : BDParams) (s : BDState) (nd : Tip) (ds : List Draw) (hS : SI
     have hg2 := hg g2 (by simp)
     have hg3 := hg g3 (by simp)
     have hg4 := hg g4 (by simp)
-    refine ⟨⟨?_, ?_, ?_, ?_, by simp⟩, by intro x hx; simp [hx]⟩
+    refine ⟨⟨?_, ?_, ?_, ?_, by simp, by have := hS.nextLB; show P.start.maxId < s.next + 2; omega⟩, by intro x hx; simp [hx]⟩
     · simp only [List.map_append, List.map_cons, List.map_nil]
       rw [List.nodup_append]
       refine ⟨(hS.nodup.sublist (hsub.map Tip.id)), by simp, ?_⟩
@@ -2494,7 +2577,7 @@ theorem sbirth (P : BDParams) (s : BDState) (nd : Tip) (ds : List Draw) (hS : SI
     intro s' ds' h
     simp at h
 
-theorem sdeath (P : BDParams) (s : BDState) (nd : Tip) (ds : List Draw) (hS : SInv P s) (hnd : nd ∈ s.extant) :
+theorem sdeath (P : BDParams) (hG : GoodStart P) (s : BDState) (nd : Tip) (ds : List Draw) (hS : SInv P s) (hnd : nd ∈ s.extant) :
     bdDeath P s nd (removeTip nd.id s.extant) ds ≠ .error .state ∧
     ∀ s' ds', bdDeath P s nd (removeTip nd.id s.extant) ds = .ok (.cont s' ds') → SInv P s' ∧ (∀ x ∈ ds', x ∈ ds) := by
   obtain ⟨t, ht⟩ := killFirst_some nd.id s.tree (hS.alive nd hnd)
@@ -2506,20 +2589,19 @@ theorem sdeath (P : BDParams) (s : BDState) (nd : Tip) (ds : List Draw) (hS : SI
     intro s' ds' h
     simp at h
     obtain ⟨rfl, rfl⟩ := h
-    have hpos : 0 < s.next := by have := hS.fresh nd hnd; omega
-    exact ⟨⟨by simp [bdRestart], by simpa [bdRestart] using hpos, by simp [bdRestart, BT.hasAlive], by simp [bdRestart], by simp [bdRestart]⟩, fun x hx => hx⟩
+    exact ⟨init_sinv_at P hG s.next hS.nextLB, fun x hx => hx⟩
   · rename_i hne
     rw [ht]
     refine ⟨by simp, ?_⟩
     intro s' ds' h
     simp at h
     obtain ⟨rfl, rfl⟩ := h
-    refine ⟨⟨hS.nodup.sublist (hsub.map Tip.id), fun t0 h0 => hS.fresh t0 (hsub.subset h0), ?_, fun t0 h0 => hS.rates t0 (hsub.subset h0), ?_⟩, fun x hx => hx⟩
+    refine ⟨⟨hS.nodup.sublist (hsub.map Tip.id), fun t0 h0 => hS.fresh t0 (hsub.subset h0), ?_, fun t0 h0 => hS.rates t0 (hsub.subset h0), ?_, hS.nextLB⟩, fun x hx => hx⟩
     · intro t0 h0
       exact a1 t0.id (removeTip_ne nd.id s.extant hS.nodup t0 h0) (hS.alive t0 (hsub.subset h0))
     · intro he; simp at he; simp [he] at hne
 
-theorem sevent (P : BDParams) (s : BDState) (ds : List Draw) (hb : 0 < P.b) (hd : 0 ≤ P.d) (hS : SInv P s) (hg : GaussNonneg ds) :
+theorem sevent (P : BDParams) (hG : GoodStart P) (s : BDState) (ds : List Draw) (hb : 0 < P.b) (hd : 0 ≤ P.d) (hS : SInv P s) (hg : GaussNonneg ds) :
     bdEvent P s ds ≠ .error .state ∧
     ∀ s' ds', bdEvent P s ds = .ok (.cont s' ds') → SInv P s' ∧ (∀ x ∈ ds', x ∈ ds) := by
   unfold bdEvent
@@ -2547,14 +2629,14 @@ theorem sevent (P : BDParams) (s : BDState) (ds : List Draw) (hb : 0 < P.b) (hd 
         intro s' ds' h
         obtain ⟨a, b⟩ := h2 s' ds' h
         exact ⟨a, fun x hx => by simp [b x hx]⟩
-      · obtain ⟨h1, h2⟩ := sdeath P s _ ds2 hS hnd
+      · obtain ⟨h1, h2⟩ := sdeath P hG s _ ds2 hS hnd
         refine ⟨h1, ?_⟩
         intro s' ds' h
         obtain ⟨a, b⟩ := h2 s' ds' h
         exact ⟨a, fun x hx => by simp [b x hx]⟩
   · exact ⟨by simp, by intro s' ds' h; simp at h⟩
 
-theorem siter (P : BDParams) (s : BDState) (ds : List Draw) (hb : 0 < P.b) (hd : 0 ≤ P.d) (hS : SInv P s) (hg : GaussNonneg ds) :
+theorem siter (P : BDParams) (hG : GoodStart P) (s : BDState) (ds : List Draw) (hb : 0 < P.b) (hd : 0 ≤ P.d) (hS : SInv P s) (hg : GaussNonneg ds) :
     bdIter P s ds ≠ .error .state ∧
     ∀ s' ds', bdIter P s ds = .ok (.cont s' ds') → SInv P s' ∧ (∀ x ∈ ds', x ∈ ds) := by
   unfold bdIter
@@ -2567,9 +2649,9 @@ theorem siter (P : BDParams) (s : BDState) (ds : List Draw) (hb : 0 < P.b) (hd :
       · exact ⟨by simp, by intro s' ds' h; simp at h⟩
       · simp only
         have hS1 : SInv P { s with tree := s.tree.addAlive w, total := s.total + w } :=
-          ⟨hS.nodup, hS.fresh, fun t ht => by simp [hasAlive_addAlive, hS.alive t ht], hS.rates, hS.ne⟩
+          ⟨hS.nodup, hS.fresh, fun t ht => by simp [hasAlive_addAlive, hS.alive t ht], hS.rates, hS.ne, hS.nextLB⟩
         split
-        · obtain ⟨h1, h2⟩ := sevent P _ ds1 hb hd hS1 (fun v hv => hg v (by simp [hv]))
+        · obtain ⟨h1, h2⟩ := sevent P hG _ ds1 hb hd hS1 (fun v hv => hg v (by simp [hv]))
           refine ⟨h1, ?_⟩
           intro s' ds' h
           obtain ⟨a, b⟩ := h2 s' ds' h
@@ -2581,14 +2663,14 @@ theorem siter (P : BDParams) (s : BDState) (ds : List Draw) (hb : 0 < P.b) (hd :
           exact ⟨hS1, fun x hx => by simp [hx]⟩
     · exact ⟨by simp, by intro s' ds' h; simp at h⟩
 
-theorem sloop (P : BDParams) (hb : 0 < P.b) (hd : 0 ≤ P.d) : ∀ (f : Nat) (s : BDState) (ds : List Draw), SInv P s → GaussNonneg ds →
+theorem sloop (P : BDParams) (hG : GoodStart P) (hb : 0 < P.b) (hd : 0 ≤ P.d) : ∀ (f : Nat) (s : BDState) (ds : List Draw), SInv P s → GaussNonneg ds →
     bdLoop P f s ds ≠ .error .state := by
   intro f
   induction f with
   | zero => intro s ds _ _; simp [bdLoop]
   | succ f ih =>
     intro s ds hS hg
-    obtain ⟨h1, h2⟩ := siter P s ds hb hd hS hg
+    obtain ⟨h1, h2⟩ := siter P hG s ds hb hd hS hg
     simp only [bdLoop]
     split
     · rename_i e he
@@ -2652,6 +2734,28 @@ theorem loop_not_arg (P : BDParams) : ∀ (f : Nat) (s : BDState) (ds : List Dra
     · simp
     · exact ih _ _
 
+theorem finishRetain_errors (n0 : Nat) (t : BT) (ds : List Draw) (e : Err) (h : finishRetain n0 t ds = .error e) :
+    e = .draws ∨ e = .kind := by
+  unfold finishRetain at h
+  simp only at h
+  split at h
+  · split at h <;> simp at h
+    simp [← h]
+  · split at h <;> (simp at h; simp [← h])
+
+theorem finish_errors (n0 : Nat) (t : BT) (ds : List Draw) (e : Err) (h1 : 1 ≤ t.aliveCount) (h : finish n0 t ds = .error e) :
+    e = .draws ∨ e = .kind := by
+  unfold finish at h
+  split at h
+  · rename_i hp
+    have := (prune_none t hp).1
+    omega
+  · simp only at h
+    split at h
+    · split at h <;> simp at h
+      simp [← h]
+    · split at h <;> (simp at h; simp [← h])
+
 theorem finish_not_state (n0 : Nat) (t : BT) (ds : List Draw) (h : 1 ≤ t.aliveCount) : finish n0 t ds ≠ .error .state := by
   unfold finish
   split
@@ -2668,10 +2772,10 @@ end Aux
 (in particular `birth_rate_sd = death_rate_sd = 0`), a run of `birth_death_tree` can only stop early because the draw
 script is too short (`draws`) or serves a draw of the wrong kind / an impossible value (`kind`): every lookup of the
 code (the weighted choice, `extant_tips.remove`, the node to split or kill, the pruning) succeeds and the fuel suffices -/
-theorem bd_only_script_errors (P : BDParams) (n0 : Nat) (ds : List Draw) (e : Err) (hb : 0 < P.b) (hd : 0 ≤ P.d)
+theorem bd_only_script_errors (P : BDParams) (hG : GoodStart P) (n0 : Nat) (ds : List Draw) (e : Err) (hb : 0 < P.b) (hd : 0 ≤ P.d)
     (hg : GaussNonneg ds) (h : bdRun P n0 ds = .error e) : e = .draws ∨ e = .kind := by
-  have hfuel := bd_fuel_suffices P (ds.length + 1) (bdInit P) ds (bd_init_inv P) (by omega)
-  have hstate := Aux.sloop P hb hd (ds.length + 1) (bdInit P) ds (bd_init_sinv P) hg
+  have hfuel := bd_fuel_suffices P hG (ds.length + 1) (bdInit P) ds (bd_init_inv P hG) (by omega)
+  have hstate := Aux.sloop P hG hb hd (ds.length + 1) (bdInit P) ds (bd_init_sinv P hG) hg
   unfold bdRun at h
   split at h
   · rename_i e' he
@@ -2684,36 +2788,16 @@ theorem bd_only_script_errors (P : BDParams) (n0 : Nat) (ds : List Draw) (e : Er
     | state => exact absurd he hstate
     | arg => exact absurd he (Aux.loop_not_arg P _ _ _)
   · rename_i s rest hl
-    obtain ⟨hI, _⟩ := bd_loop_inv P _ _ _ _ _ (bd_init_inv P) hl
+    obtain ⟨hI, _⟩ := bd_loop_inv P hG _ _ _ _ _ (bd_init_inv P hG) hl
     have h1 : 1 ≤ s.tree.aliveCount := by rw [← hI.count]; exact hI.pos
-    have := Aux.finish_not_state n0 s.tree rest h1
-    cases e with
-    | draws => simp
-    | kind => simp
-    | state => exact absurd h this
-    | fuel =>
-      exfalso
-      unfold finish at h
-      split at h
-      · simp at h
-      · simp only at h
-        split at h
-        · split at h <;> simp at h
-        · split at h <;> simp at h
-    | arg =>
-      exfalso
-      unfold finish at h
-      split at h
-      · simp at h
-      · simp only at h
-        split at h
-        · split at h <;> simp at h
-        · split at h <;> simp at h
+    split at h
+    · exact Aux.finishRetain_errors n0 s.tree rest e h
+    · exact Aux.finish_errors n0 s.tree rest e h1 h
 
 /-- **progress of the loop body**: from a state satisfying the invariant, one waiting time `w ≥ 0`, one uniform draw
 `0 ≤ p/q < 1` and four non-negative `gauss` draws always let a pass through the body of `birth_death_tree` complete
 (whatever it does: stop, no event because of `max_time`, birth, death, restart) -/
-theorem bd_iter_progress (P : BDParams) (s : BDState) (w p q g1 g2 g3 g4 : Int) (rest : List Draw)
+theorem bd_iter_progress (P : BDParams) (hG : GoodStart P) (s : BDState) (w p q g1 g2 g3 g4 : Int) (rest : List Draw)
     (hb : 0 < P.b) (hd : 0 ≤ P.d) (hS : SInv P s) (hw : 0 ≤ w) (hp : 0 ≤ p) (hpq : p < q) :
     ∃ st, bdIter P s (.w w :: .u p q :: .g g1 :: .g g2 :: .g g3 :: .g g4 :: rest) = .ok st := by
   unfold bdIter
@@ -2723,7 +2807,7 @@ theorem bd_iter_progress (P : BDParams) (s : BDState) (w p q g1 g2 g3 g4 : Int) 
     rw [if_neg (by omega)]
     split
     · have hS1 : SInv P { s with tree := s.tree.addAlive w, total := s.total + w } :=
-        ⟨hS.nodup, hS.fresh, fun t ht => by simp [Aux.hasAlive_addAlive, hS.alive t ht], hS.rates, hS.ne⟩
+        ⟨hS.nodup, hS.fresh, fun t ht => by simp [Aux.hasAlive_addAlive, hS.alive t ht], hS.rates, hS.ne, hS.nextLB⟩
       generalize hs1 : ({ s with tree := s.tree.addAlive w, total := s.total + w } : BDState) = s1 at hS1
       unfold bdEvent
       simp only
@@ -3398,21 +3482,1319 @@ example : (contained exampleST [.w 1, .samp 0 1, .w 3, .samp 0 1]).toOption.map 
 
 /-- non-vacuity of the progress theorems: the initial state satisfies both invariants, so by `bd_iter_progress`
 *any* six well-kinded draws let the first pass complete; here a concrete one -/
-example : ∃ st, bdIter ⟨some 3, none, 2, 1⟩ (bdInit ⟨some 3, none, 2, 1⟩) [.w 4, .u 1 8, .g 0, .g 0, .g 0, .g 0] = .ok st :=
-  bd_iter_progress _ _ 4 1 8 0 0 0 0 [] (by decide) (by decide) (bd_init_sinv _) (by decide) (by decide) (by decide)
+example : ∃ st, bdIter { nTips := some 3, maxTime := none, b := 2, d := 1 } (bdInit { nTips := some 3, maxTime := none, b := 2, d := 1 }) [.w 4, .u 1 8, .g 0, .g 0, .g 0, .g 0] = .ok st :=
+  bd_iter_progress _ (goodStart_default _ rfl) _ 4 1 8 0 0 0 0 [] (by decide) (by decide) (bd_init_sinv _ (goodStart_default _ rfl)) (by decide) (by decide) (by decide)
 
 /-- the lookup invariant is kept by every pass through the loop body (with `Inv` this is the full loop invariant) -/
-theorem bd_sinv_step (P : BDParams) (s s' : BDState) (ds ds' : List Draw) (hb : 0 < P.b) (hd : 0 ≤ P.d) (hS : SInv P s)
+theorem bd_sinv_step (P : BDParams) (hG : GoodStart P) (s s' : BDState) (ds ds' : List Draw) (hb : 0 < P.b) (hd : 0 ≤ P.d) (hS : SInv P s)
     (hg : GaussNonneg ds) (h : bdIter P s ds = .ok (.cont s' ds')) : SInv P s' ∧ GaussNonneg ds' := by
-  obtain ⟨a, b⟩ := (Aux.siter P s ds hb hd hS hg).2 s' ds' h
+  obtain ⟨a, b⟩ := (Aux.siter P hG s ds hb hd hS hg).2 s' ds' h
   exact ⟨a, fun v hv => hg v (b _ hv)⟩
 
 /-- non-vacuity of the error characterisations: the two script errors do occur -/
-example : (match bdRun ⟨some 2, none, 2, 1⟩ 0 [.w 4] with | .error e => some e | .ok _ => none) = some Err.draws := by decide
-example : (match bdRun ⟨some 2, none, 2, 1⟩ 0 [.u 1 2] with | .error e => some e | .ok _ => none) = some Err.kind := by decide
+example : (match bdRun { nTips := some 2, maxTime := none, b := 2, d := 1 } 0 [.w 4] with | .error e => some e | .ok _ => none) = some Err.draws := by decide
+example : (match bdRun { nTips := some 2, maxTime := none, b := 2, d := 1 } 0 [.u 1 2] with | .error e => some e | .ok _ => none) = some Err.kind := by decide
 example : (match kingman 2 1 [.w 1, .samp 0 0] with | .error e => some e | .ok _ => none) = some Err.kind := by decide
-example : (match fbdRun ⟨some 2, none, 2, 1⟩ 0 [.w 4, .rint 5, .u 1 2] with | .error e => some e | .ok _ => none) = some Err.kind := by decide
+example : (match fbdRun { nTips := some 2, maxTime := none, b := 2, d := 1 } 0 [.w 4, .rint 5, .u 1 2] with | .error e => some e | .ok _ => none) = some Err.kind := by decide
 
 example : (match pbRun 0 [.w 1] with | .error e => some e | .ok _ => none) = some Err.arg := by decide
+
+
+/-! ### extension round: `num_extinct_tips` / `num_total_tips` stops, retained extinct tips -/
+open BT
+
+
+
+namespace Aux
+theorem suppress_noUn_id : ∀ (t : BT), t.noUn = true → suppress t = t := by
+  intro t
+  induction t with
+  | tip i l a => intro _; rfl
+  | un i l c ih => intro h; simp [BT.noUn] at h
+  | bin i l x y ihx ihy =>
+    intro h
+    simp [BT.noUn] at h
+    simp [BT.suppress, ihx h.1, ihy h.2]
+
+theorem deadDepths_addAlive (w : Int) (t : BT) : (t.addAlive w).deadDepths = t.deadDepths := by
+  induction t with
+  | tip i l a => cases a <;> simp [BT.addAlive, BT.deadDepths]
+  | un i l c ih => simp [BT.addAlive, BT.deadDepths, ih]
+  | bin i l x y ihx ihy => simp [BT.addAlive, BT.deadDepths, ihx, ihy]
+
+theorem deadDepths_length (t : BT) : t.deadDepths.length + t.aliveCount = t.nLeaves := by
+  induction t with
+  | tip i l a => cases a <;> simp [BT.deadDepths, BT.aliveCount, BT.nLeaves]
+  | un i l c ih => simpa [BT.deadDepths, BT.aliveCount, BT.nLeaves] using ih
+  | bin i l x y ihx ihy => simp [BT.deadDepths, BT.aliveCount, BT.nLeaves]; omega
+
+theorem splitFirst_more (i a b : Nat) : ∀ (t t' : BT), splitFirst i a b 0 t = some t' →
+    t'.nLeaves = t.nLeaves + 1 ∧ t'.noUn = t.noUn ∧ t'.deadDepths = t.deadDepths := by
+  intro t
+  induction t with
+  | tip j l al =>
+    intro t' h
+    simp only [BT.splitFirst] at h
+    split at h
+    · rename_i hc
+      simp at h; subst h
+      simp at hc
+      simp [BT.nLeaves, BT.noUn, BT.deadDepths, hc.1]
+    · simp at h
+  | un j l c ih =>
+    intro t' h
+    simp only [BT.splitFirst, Option.map_eq_some_iff] at h
+    obtain ⟨c', hc, rfl⟩ := h
+    obtain ⟨h1, h2, h3⟩ := ih c' hc
+    simp [BT.nLeaves, BT.noUn, BT.deadDepths, h1, h3]
+  | bin j l x y ihx ihy =>
+    intro t' h
+    simp only [BT.splitFirst] at h
+    split at h
+    · rename_i x' hx
+      simp at h; subst h
+      obtain ⟨h1, h2, h3⟩ := ihx x' hx
+      simp [BT.nLeaves, BT.noUn, BT.deadDepths, h1, h2, h3]; omega
+    · simp only [Option.map_eq_some_iff] at h
+      obtain ⟨y', hy, rfl⟩ := h
+      obtain ⟨h1, h2, h3⟩ := ihy y' hy
+      simp [BT.nLeaves, BT.noUn, BT.deadDepths, h1, h2, h3]; omega
+
+theorem killFirst_more (i : Nat) : ∀ (t t' : BT), killFirst i t = some t' →
+    t'.nLeaves = t.nLeaves ∧ t'.noUn = t.noUn ∧ ∀ d ∈ t'.deadDepths, d ∈ t.deadDepths ∨ d ∈ t.aliveDepths := by
+  intro t
+  induction t with
+  | tip j l al =>
+    intro t' h
+    simp only [BT.killFirst] at h
+    split at h
+    · rename_i hc
+      simp at h; subst h
+      simp at hc
+      simp [BT.nLeaves, BT.noUn, BT.deadDepths, BT.aliveDepths, hc.1]
+    · simp at h
+  | un j l c ih =>
+    intro t' h
+    simp only [BT.killFirst, Option.map_eq_some_iff] at h
+    obtain ⟨c', hc, rfl⟩ := h
+    obtain ⟨h1, h2, h3⟩ := ih c' hc
+    refine ⟨by simp [BT.nLeaves, h1], by simp [BT.noUn], ?_⟩
+    intro d hd
+    simp only [BT.deadDepths, BT.aliveDepths, List.mem_map] at hd ⊢
+    obtain ⟨e, he, rfl⟩ := hd
+    rcases h3 e he with h | h
+    · exact Or.inl ⟨e, h, rfl⟩
+    · exact Or.inr ⟨e, h, rfl⟩
+  | bin j l x y ihx ihy =>
+    intro t' h
+    simp only [BT.killFirst] at h
+    split at h
+    · rename_i x' hx
+      simp at h; subst h
+      obtain ⟨h1, h2, h3⟩ := ihx x' hx
+      refine ⟨by simp [BT.nLeaves, h1], by simp [BT.noUn, h2], ?_⟩
+      intro d hd
+      simp only [BT.deadDepths, BT.aliveDepths, List.mem_map, List.mem_append] at hd ⊢
+      obtain ⟨e, he, rfl⟩ := hd
+      rcases he with he | he
+      · rcases h3 e he with h | h
+        · exact Or.inl ⟨e, Or.inl h, rfl⟩
+        · exact Or.inr ⟨e, Or.inl h, rfl⟩
+      · exact Or.inl ⟨e, Or.inr he, rfl⟩
+    · simp only [Option.map_eq_some_iff] at h
+      obtain ⟨y', hy, rfl⟩ := h
+      obtain ⟨h1, h2, h3⟩ := ihy y' hy
+      refine ⟨by simp [BT.nLeaves, h1], by simp [BT.noUn, h2], ?_⟩
+      intro d hd
+      simp only [BT.deadDepths, BT.aliveDepths, List.mem_map, List.mem_append] at hd ⊢
+      obtain ⟨e, he, rfl⟩ := hd
+      rcases he with he | he
+      · exact Or.inl ⟨e, Or.inl he, rfl⟩
+      · rcases h3 e he with h | h
+        · exact Or.inl ⟨e, Or.inr h, rfl⟩
+        · exact Or.inr ⟨e, Or.inr h, rfl⟩
+end Aux
+
+/-- invariant of `birth_death_tree` concerning the extinct tips and the two further stopping rules: `extinct_tips` has one
+entry per extinct tip of the tree, the growing tree has no unary node, no extinct tip lies deeper than the extant ones
+(all at `total_time + c`), and the counts never overshoot `num_extinct_tips` / `num_total_tips` -/
+structure XInv (P : BDParams) (s : BDState) : Prop where
+  leaves : s.extinct.length + s.tree.aliveCount = s.tree.nLeaves
+  noUn : s.tree.noUn = true
+  depth : ∃ c, (∀ d ∈ s.tree.aliveDepths, d = s.total + c) ∧ (∀ d ∈ s.tree.deadDepths, d ≤ s.total + c)
+  capX : ∀ k, P.nExtinct = some k → 1 ≤ k → s.extinct.length ≤ k
+  capT : ∀ k, P.nTotal = some k → 1 ≤ k → s.extant.length + s.extinct.length ≤ k
+
+namespace Aux
+theorem init_xinv_at (P : BDParams) (hG : GoodStart P) (nx : Nat) : XInv P { bdInit P with next := nx } := by
+  obtain ⟨D, hD1, hD2⟩ := hG.equi
+  refine ⟨by simpa [bdInit] using deadIds_length P.start, by simpa [bdInit] using hG.noUn,
+    ⟨D, by simpa [bdInit] using hD1, by simpa [bdInit] using hD2⟩, by simpa [bdInit] using hG.capX, ?_⟩
+  intro k hk h1
+  simpa [bdInit, aliveIds_length] using hG.capT k hk h1
+end Aux
+
+theorem bd_init_xinv (P : BDParams) (hG : GoodStart P) : XInv P (bdInit P) := Aux.init_xinv_at P hG _
+
+namespace Aux
+theorem xstop_false (P : BDParams) (a x : Nat) (h : xStop P a x = false) :
+    (∀ k, P.nExtinct = some k → x < k) ∧ (∀ k, P.nTotal = some k → a + x < k) := by
+  constructor
+  · intro k hk; simp [xStop, hk] at h; omega
+  · intro k hk; simp [xStop, hk] at h; omega
+
+theorem xbirth (P : BDParams) (s s' : BDState) (nd : Tip) (ds ds' : List Draw) (hX : XInv P s) (hc : s.extant.length = s.tree.aliveCount)
+    (hmem : ∃ t ∈ s.extant, t.id = nd.id) (hlt : ∀ k, P.nTotal = some k → s.extant.length + s.extinct.length < k)
+    (h : bdBirth s nd (removeTip nd.id s.extant) ds = .ok (.cont s' ds')) : XInv P s' := by
+  have hrm := removeTip_length nd.id s.extant hmem
+  obtain ⟨c, hc1, hc2⟩ := hX.depth
+  unfold bdBirth at h
+  split at h
+  · split at h
+    · simp at h
+    · rename_i t ht
+      simp at h
+      obtain ⟨rfl, _⟩ := h
+      obtain ⟨m1, m2, m3⟩ := splitFirst_more _ _ _ _ _ ht
+      have ac := splitFirst_aliveCount _ _ _ _ _ _ ht
+      refine ⟨by simp [m1, ac]; have := hX.leaves; omega, by simp [m2, hX.noUn], ⟨c, ?_, by simpa [m3] using hc2⟩, by simpa using hX.capX, ?_⟩
+      · intro d hd
+        exact hc1 d (splitFirst_depths _ _ _ _ _ ht d hd)
+      · intro k hk h1
+        have := hlt k hk
+        simp; omega
+  · simp at h
+
+theorem xdeath (P : BDParams) (hG : GoodStart P) (s s' : BDState) (nd : Tip) (ds ds' : List Draw) (hX : XInv P s) (hc : s.extant.length = s.tree.aliveCount)
+    (hmem : ∃ t ∈ s.extant, t.id = nd.id) (hltx : ∀ k, P.nExtinct = some k → s.extinct.length < k)
+    (hlt : ∀ k, P.nTotal = some k → s.extant.length + s.extinct.length < k)
+    (h : bdDeath P s nd (removeTip nd.id s.extant) ds = .ok (.cont s' ds')) : XInv P s' := by
+  have hrm := removeTip_length nd.id s.extant hmem
+  obtain ⟨c, hc1, hc2⟩ := hX.depth
+  unfold bdDeath at h
+  split at h
+  · simp at h
+    obtain ⟨rfl, _⟩ := h
+    exact init_xinv_at P hG s.next
+  · split at h
+    · simp at h
+    · rename_i t ht
+      simp at h
+      obtain ⟨rfl, _⟩ := h
+      obtain ⟨m1, m2, m3⟩ := killFirst_more _ _ _ ht
+      have ac := killFirst_aliveCount _ _ _ ht
+      refine ⟨by simp [m1]; have := hX.leaves; omega, by simp [m2, hX.noUn], ⟨c, ?_, ?_⟩, ?_, ?_⟩
+      · intro d hd
+        exact hc1 d (killFirst_depths _ _ _ ht d hd)
+      · intro d hd
+        rcases m3 d hd with h | h
+        · exact hc2 d h
+        · have := hc1 d h; simp; omega
+      · intro k hk h1
+        have := hltx k hk
+        simp; omega
+      · intro k hk h1
+        have := hlt k hk
+        simp; omega
+end Aux
+
+
+namespace Aux
+theorem xevent (P : BDParams) (hG : GoodStart P) (s s' : BDState) (ds ds' : List Draw) (hX : XInv P s) (hc : s.extant.length = s.tree.aliveCount)
+    (hltx : ∀ k, P.nExtinct = some k → s.extinct.length < k)
+    (hlt : ∀ k, P.nTotal = some k → s.extant.length + s.extinct.length < k)
+    (h : bdEvent P s ds = .ok (.cont s' ds')) : XInv P s' := by
+  unfold bdEvent at h
+  split at h
+  · simp at h
+  · split at h
+    · simp at h
+    split at h
+    · simp at h
+    · split at h
+      · simp at h
+      · rename_i nd hnd
+        have hmem : ∃ t ∈ s.extant, t.id = nd.id := ⟨nd, List.mem_of_getElem? hnd, rfl⟩
+        split at h
+        · exact xbirth P s s' nd _ ds' hX hc hmem hlt h
+        · exact xdeath P hG s s' nd _ ds' hX hc hmem hltx hlt h
+  · simp at h
+end Aux
+
+/-- every pass through the loop body keeps the extinct-tip invariant -/
+theorem bd_xinv (P : BDParams) (hG : GoodStart P) (s s' : BDState) (ds ds' : List Draw) (hI : Inv P s) (hX : XInv P s)
+    (h : bdIter P s ds = .ok (.cont s' ds')) : XInv P s' := by
+  obtain ⟨c, hc1, hc2⟩ := hX.depth
+  unfold bdIter at h
+  split at h
+  · simp at h
+  rename_i hstop
+  simp at hstop
+  obtain ⟨x1, x2⟩ := Aux.xstop_false P _ _ hstop.2
+  split at h
+  · simp at h
+  · rename_i w ds1
+    split at h
+    · simp at h
+    rename_i hw
+    have hX1 : XInv P { s with tree := s.tree.addAlive w, total := s.total + w } := by
+      refine ⟨by simp [Aux.aliveCount_addAlive, Aux.nLeaves_addAlive]; exact hX.leaves, by simp [Aux.noUn_addAlive, hX.noUn], ⟨c, ?_, ?_⟩,
+        by simpa using hX.capX, by simpa using hX.capT⟩
+      · intro d hd
+        simp only [Aux.aliveDepths_addAlive, List.mem_map] at hd
+        obtain ⟨e, he, rfl⟩ := hd
+        have := hc1 e he
+        simp; omega
+      · intro d hd
+        simp only [Aux.deadDepths_addAlive] at hd
+        have := hc2 d hd
+        simp; omega
+    simp only at h
+    split at h
+    · exact Aux.xevent P hG _ s' ds1 ds' hX1 (by simpa [Aux.aliveCount_addAlive] using hI.count) (by simpa using x1) (by simpa using x2) h
+    · simp at h
+      obtain ⟨rfl, _⟩ := h
+      exact hX1
+  · simp at h
+
+theorem bd_loop_xinv (P : BDParams) (hG : GoodStart P) : ∀ (f : Nat) (s s' : BDState) (ds ds' : List Draw), Inv P s → XInv P s →
+    bdLoop P f s ds = .ok (s', ds') → XInv P s' := by
+  intro f
+  induction f with
+  | zero => intro s s' ds ds' _ _ h; simp [bdLoop] at h
+  | succ f ih =>
+    intro s s' ds ds' hI hX h
+    simp only [bdLoop] at h
+    split at h
+    · simp at h
+    · rename_i s1 ds1 hit
+      simp at h
+      obtain ⟨rfl, rfl⟩ := h
+      obtain ⟨rfl, _, _⟩ := bd_done P s s1 ds ds1 hit
+      exact hX
+    · rename_i s1 ds1 hit
+      exact ih s1 s' ds1 ds' (bd_inv P hG s s1 ds ds1 hI hit).1 (bd_xinv P hG s s1 ds ds1 hI hX hit) h
+
+/-- number of extinct tips of a tree -/
+def BT.deadCount (t : BT) : Nat := t.deadDepths.length
+
+/-- **retained extinct tips** (`is_retain_extinct_tips=True`), every stopping rule, every draw list: the returned tree has no
+unary node; its extant tips all lie at one depth `D` and no extinct tip lies deeper; every leaf (extant or extinct)
+receives a taxon and the taxa are pairwise distinct -/
+theorem bd_result_retained (P : BDParams) (hG : GoodStart P) (n0 : Nat) (ds : List Draw) (r : SimResult) (hr : P.retain = true)
+    (h : bdRun P n0 ds = .ok r) :
+    r.tree.noUn = true ∧ r.tree.deadCount + r.tree.aliveCount = r.tree.nLeaves ∧
+    (∃ D, (∀ d ∈ r.tree.aliveDepths, d = D) ∧ (∀ d ∈ r.tree.deadDepths, d ≤ D)) ∧
+    (r.taxa.map Prod.snd).Nodup ∧ isPerm r.tree.nLeaves (r.taxa.map Prod.fst) = true := by
+  unfold bdRun at h
+  split at h
+  · simp at h
+  · rename_i s rest hl
+    have hX := bd_loop_xinv P hG _ _ _ _ _ (bd_init_inv P hG) (bd_init_xinv P hG) hl
+    simp only [hr, if_true] at h
+    unfold finishRetain at h
+    rw [Aux.suppress_noUn_id s.tree hX.noUn] at h
+    simp only at h
+    split at h
+    · split at h
+      · rename_i a ha
+        simp at h; subst h
+        obtain ⟨c1, c2, c3⟩ := Aux.assignTaxa_props _ _ _ _ _ ha
+        obtain ⟨c, hc1, hc2⟩ := hX.depth
+        exact ⟨hX.noUn, Aux.deadDepths_length s.tree, ⟨s.total + c, hc1, hc2⟩, c1, by simpa [c2] using c3⟩
+      · simp at h
+    · simp at h
+
+/-- the counts under each stopping rule taken alone (retained extinct tips make them visible in the result):
+`num_extant_tips = n`: exactly `n` extant leaves; `num_extinct_tips = k`: exactly `k` extinct leaves; `num_total_tips = k`:
+exactly `k` leaves (`n, k ≥ 1`) -/
+theorem bd_result_retained_counts (P : BDParams) (hG : GoodStart P) (n0 : Nat) (ds : List Draw) (r : SimResult) (hr : P.retain = true)
+    (h : bdRun P n0 ds = .ok r) (hm : P.maxTime = none) :
+    (∀ n, P.nTips = some n → 1 ≤ n → P.nExtinct = none → P.nTotal = none → r.tree.aliveCount = n) ∧
+    (∀ k, P.nExtinct = some k → 1 ≤ k → P.nTips = none → P.nTotal = none → r.tree.deadCount = k) ∧
+    (∀ k, P.nTotal = some k → 1 ≤ k → P.nTips = none → P.nExtinct = none → r.tree.nLeaves = k) := by
+  unfold bdRun at h
+  split at h
+  · simp at h
+  · rename_i s rest hl
+    have hX := bd_loop_xinv P hG _ _ _ _ _ (bd_init_inv P hG) (bd_init_xinv P hG) hl
+    obtain ⟨hI, hstop⟩ := bd_loop_inv P hG _ _ _ _ _ (bd_init_inv P hG) hl
+    simp only [hr, if_true] at h
+    unfold finishRetain at h
+    rw [Aux.suppress_noUn_id s.tree hX.noUn] at h
+    simp only at h
+    split at h
+    · split at h
+      · simp at h; subst h
+        have hl := hX.leaves
+        have hdl := Aux.deadDepths_length s.tree
+        refine ⟨?_, ?_, ?_⟩
+        · intro n hn h1 hx ht
+          have := hI.cap n hn h1
+          simp [bdStop, xStop, hn, hm, hx, ht] at hstop
+          simp only; rw [← hI.count]; omega
+        · intro k hk h1 hn ht
+          have := hX.capX k hk h1
+          simp [bdStop, xStop, hn, hm, hk, ht] at hstop
+          simp only [BT.deadCount]; omega
+        · intro k hk h1 hn hx
+          have := hX.capT k hk h1
+          simp [bdStop, xStop, hn, hm, hk, hx] at hstop
+          simp only; have := hI.count; omega
+      · simp at h
+    · simp at h
+
+/-- the same counts hold at the end of the loop whether or not the extinct tips are retained -/
+theorem bd_stop_counts (P : BDParams) (hG : GoodStart P) (f : Nat) (s : BDState) (ds ds' : List Draw) (h : bdLoop P f (bdInit P) ds = .ok (s, ds'))
+    (hm : P.maxTime = none) :
+    (∀ k, P.nExtinct = some k → 1 ≤ k → P.nTips = none → P.nTotal = none → s.extinct.length = k) ∧
+    (∀ k, P.nTotal = some k → 1 ≤ k → P.nTips = none → P.nExtinct = none → s.extant.length + s.extinct.length = k) := by
+  have hX := bd_loop_xinv P hG _ _ _ _ _ (bd_init_inv P hG) (bd_init_xinv P hG) h
+  obtain ⟨hI, hstop⟩ := bd_loop_inv P hG _ _ _ _ _ (bd_init_inv P hG) h
+  constructor
+  · intro k hk h1 hn ht
+    have := hX.capX k hk h1
+    simp [bdStop, xStop, hn, hm, hk, ht] at hstop
+    omega
+  · intro k hk h1 hn hx
+    have := hX.capT k hk h1
+    simp [bdStop, xStop, hn, hm, hk, hx] at hstop
+    omega
+
+/-- non-vacuity: two extinct tips retained under `num_extinct_tips = 2`; a death, births, another death -/
+example : (bdRun { nTips := none, maxTime := none, b := 2, d := 1, nExtinct := some 2, retain := true } 0
+    [.w 4, .u 1 8, .g 0, .g 0, .g 0, .g 0, .w 2, .u 7 8, .w 1, .u 1 8, .g 0, .g 0, .g 0, .g 0, .w 3, .u 7 8,
+     .perm [], .perm [0, 1, 2]]).toOption.map
+      (fun r => (r.tree.nLeaves, r.tree.aliveDepths, r.tree.deadDepths)) = some (3, [10], [10, 6]) := by decide
+
+
+/-! ### extension round: the General Sampling Approach (`gsa_ntax`) -/
+
+
+namespace Aux
+theorem selectSlice_last (q : Int) : ∀ (sl : List (Int × List (Nat × Int))) (r : Int) (sel : Option (Int × List (Nat × Int))),
+    sl ≠ [] → r - (sl.map (·.1)).sum * q < 0 → selectSlice q r sl sel = sl.getLast? := by
+  intro sl
+  induction sl with
+  | nil => intro r sel h; exact absurd rfl h
+  | cons a rest ih =>
+    intro r sel _ hr
+    simp only [selectSlice]
+    cases rest with
+    | nil =>
+      simp only [List.map_cons, List.map_nil, List.sum_cons, List.sum_nil, Int.add_zero] at hr
+      simp [selectSlice, hr]
+    | cons b rest' =>
+      have := ih (r - a.1 * q) (if r - a.1 * q < 0 then some a else sel) (by simp) (by
+        simp only [List.map_cons, List.sum_cons, Int.add_mul] at hr ⊢
+        omega)
+      rw [this]
+      simp
+end Aux
+
+/-- **the GSA slice selection always returns the last slice** (the loop has no `break`): whatever the uniform draw
+`0 ≤ p/q < 1`, as soon as the recorded durations have a positive sum.  (The General Sampling Approach intends a slice chosen
+with probability proportional to its duration; this is what the code does instead.) -/
+theorem gsa_selects_last (p q : Int) (sl : List (Int × List (Nat × Int))) (hne : sl ≠ []) (_hp : 0 ≤ p) (hpq : p < q)
+    (htot : 0 < (sl.map (·.1)).sum) : selectSlice q (p * (sl.map (·.1)).sum) sl none = sl.getLast? := by
+  apply Aux.selectSlice_last q sl _ none hne
+  have : p * (sl.map (·.1)).sum < q * (sl.map (·.1)).sum := Int.mul_lt_mul_of_pos_right hpq htot
+  rw [Int.mul_comm _ q]
+  omega
+
+example : selectSlice 8 (1 * 9) [(4, []), (3, [(1, 0)]), (2, [(7, 5)])] none = some (2, [(7, 5)]) := by decide
+
+/-- non-vacuity: N = 1, G = 2: the only slice is the first waiting time; the tree is cut back to the seed -/
+example : (match gsaRun { nTips := some 1, maxTime := none, b := 2, d := 1 } 1 2 0
+    [.w 4, .u 1 8, .g 0, .g 0, .g 0, .g 0, .u 1 2, .perm [], .perm [0]] with
+    | .ok (some r) => some (r.tree.nLeaves, r.tree.aliveDepths) | _ => none) = some (1, [4]) := by decide
+
+/-- the predicted crash: a clade cut away by the slice went entirely extinct -/
+example : gsaCrashAt (.bin 0 4 (.bin 1 2 (.tip 3 1 false) (.tip 4 1 false)) (.tip 2 5 true)) 0 = true := by decide
+
+
+/-! ### extension round: continuing a given tree (`tree=`) -/
+
+/-- a two-tip ultrametric start tree is admissible for `num_extant_tips = 3` -/
+def exampleStart : BDParams :=
+  { nTips := some 3, maxTime := none, b := 2, d := 1, start := .bin 0 0 (.tip 1 4 true) (.tip 2 4 true) }
+
+theorem exampleStart_good : GoodStart exampleStart := by
+  refine ⟨by decide, ⟨4, by decide, by decide⟩, ?_, by decide, ?_, by decide, by decide⟩
+  · intro n hn _; simp [exampleStart] at hn; subst hn; decide
+  · intro k hk _; simp [exampleStart] at hk
+
+/-- continuation with a restart: both start lineages die, the start tree is restored, then one birth: three tips, equidistant -/
+example : (bdRun exampleStart 2 [.w 4, .u 7 8, .w 1, .u 7 8, .w 2, .u 1 8, .g 0, .g 0, .g 0, .g 0, .perm [1, 0], .perm [2, 0, 1]]).toOption.map
+    (fun r => (r.tree.nLeaves, rootDists r.tree)) = some (3, [6, 6, 6]) := by decide
+
+
+/-! ### extension round: GSA — cutting back to a slice restores the tree as it stood (full result) -/
+
+
+/-- all node ids, pre-order (the root's first) -/
+def BT.ids : BT → List Nat
+  | .tip i _ _ => [i]
+  | .un i _ c => i :: ids c
+  | .bin i _ x y => i :: (ids x ++ ids y)
+
+/-- `Ext N0 t u`: `u` is `t` except that every extant tip of `t` may have been replaced by an arbitrary subtree with the same
+root id all of whose other ids are `≥ N0` (everything the process did after the time slice at which the tree was `t`) -/
+def Ext (N0 : Nat) : BT → BT → Prop
+  | .tip i _ true, u => u.rootId = i ∧ ∀ j ∈ u.ids.tail, N0 ≤ j
+  | .tip i l false, u => u = .tip i l false
+  | .un _ _ _, _ => False
+  | .bin i l x y, .bin i' l' x' y' => i = i' ∧ l = l' ∧ Ext N0 x x' ∧ Ext N0 y y'
+  | .bin _ _ _ _, _ => False
+
+namespace Aux
+theorem ids_addAlive (w : Int) (t : BT) : (t.addAlive w).ids = t.ids ∧ (t.addAlive w).rootId = t.rootId := by
+  induction t with
+  | tip i l a => simp [BT.addAlive, BT.ids, BT.rootId]
+  | un i l c ih => simp [BT.addAlive, BT.ids, BT.rootId, ih.1]
+  | bin i l x y ihx ihy => simp [BT.addAlive, BT.ids, BT.rootId, ihx.1, ihy.1]
+
+theorem splitFirst_ids (i a b : Nat) (l0 : Int) : ∀ (u u' : BT), splitFirst i a b l0 u = some u' →
+    u'.rootId = u.rootId ∧ (∀ j ∈ u'.ids, j ∈ u.ids ∨ j = a ∨ j = b) ∧ (∀ j ∈ u'.ids.tail, j ∈ u.ids.tail ∨ j = a ∨ j = b) := by
+  intro u
+  induction u with
+  | tip j l al =>
+    intro u' h
+    simp only [BT.splitFirst] at h
+    split at h
+    · simp at h; subst h
+      simp [BT.rootId, BT.ids]
+    · simp at h
+  | un j l c ih =>
+    intro u' h
+    simp only [BT.splitFirst, Option.map_eq_some_iff] at h
+    obtain ⟨c', hc, rfl⟩ := h
+    obtain ⟨_, h2, _⟩ := ih c' hc
+    refine ⟨rfl, ?_, ?_⟩
+    · intro k hk
+      simp only [BT.ids, List.mem_cons] at hk ⊢
+      rcases hk with rfl | hk
+      · simp
+      · rcases h2 k hk with h | h | h <;> simp [h]
+    · intro k hk
+      simp only [BT.ids, List.tail_cons] at hk ⊢
+      exact h2 k hk
+  | bin j l x y ihx ihy =>
+    intro u' h
+    simp only [BT.splitFirst] at h
+    split at h
+    · rename_i x' hx
+      simp at h; subst h
+      obtain ⟨_, h2, _⟩ := ihx x' hx
+      have key : ∀ k ∈ x'.ids ++ y.ids, k ∈ x.ids ++ y.ids ∨ k = a ∨ k = b := by
+        intro k hk
+        simp only [List.mem_append] at hk ⊢
+        rcases hk with hk | hk
+        · rcases h2 k hk with h | h | h <;> simp [h]
+        · simp [hk]
+      refine ⟨rfl, ?_, ?_⟩
+      · intro k hk
+        simp only [BT.ids, List.mem_cons] at hk ⊢
+        rcases hk with rfl | hk
+        · simp
+        · rcases key k hk with h | h | h <;> simp [h]
+      · intro k hk
+        simp only [BT.ids, List.tail_cons] at hk ⊢
+        exact key k hk
+    · simp only [Option.map_eq_some_iff] at h
+      obtain ⟨y', hy, rfl⟩ := h
+      obtain ⟨_, h2, _⟩ := ihy y' hy
+      have key : ∀ k ∈ x.ids ++ y'.ids, k ∈ x.ids ++ y.ids ∨ k = a ∨ k = b := by
+        intro k hk
+        simp only [List.mem_append] at hk ⊢
+        rcases hk with hk | hk
+        · simp [hk]
+        · rcases h2 k hk with h | h | h <;> simp [h]
+      refine ⟨rfl, ?_, ?_⟩
+      · intro k hk
+        simp only [BT.ids, List.mem_cons] at hk ⊢
+        rcases hk with rfl | hk
+        · simp
+        · rcases key k hk with h | h | h <;> simp [h]
+      · intro k hk
+        simp only [BT.ids, List.tail_cons] at hk ⊢
+        exact key k hk
+
+theorem killFirst_ids (i : Nat) : ∀ (u u' : BT), killFirst i u = some u' → u'.rootId = u.rootId ∧ u'.ids = u.ids := by
+  intro u
+  induction u with
+  | tip j l al =>
+    intro u' h
+    simp only [BT.killFirst] at h
+    split at h
+    · simp at h; subst h; simp [BT.rootId, BT.ids]
+    · simp at h
+  | un j l c ih =>
+    intro u' h
+    simp only [BT.killFirst, Option.map_eq_some_iff] at h
+    obtain ⟨c', hc, rfl⟩ := h
+    simp [BT.rootId, BT.ids, (ih c' hc).2]
+  | bin j l x y ihx ihy =>
+    intro u' h
+    simp only [BT.killFirst] at h
+    split at h
+    · rename_i x' hx
+      simp at h; subst h
+      simp [BT.rootId, BT.ids, (ihx x' hx).2]
+    · simp only [Option.map_eq_some_iff] at h
+      obtain ⟨y', hy, rfl⟩ := h
+      simp [BT.rootId, BT.ids, (ihy y' hy).2]
+
+theorem ext_self_addAlive (N0 : Nat) (w : Int) : ∀ (t : BT), t.noUn = true → Ext N0 t (t.addAlive w) := by
+  intro t
+  induction t with
+  | tip i l a => intro _; cases a <;> simp [Ext, BT.addAlive, BT.rootId, BT.ids]
+  | un i l c ih => intro h; simp [BT.noUn] at h
+  | bin i l x y ihx ihy =>
+    intro h
+    simp [BT.noUn] at h
+    simp only [BT.addAlive, Ext]
+    exact ⟨trivial, trivial, ihx h.1, ihy h.2⟩
+
+theorem ext_addAlive (N0 : Nat) (w : Int) : ∀ (t u : BT), Ext N0 t u → Ext N0 t (u.addAlive w) := by
+  intro t
+  induction t with
+  | tip i l a =>
+    intro u h
+    cases a
+    · simp only [Ext] at h ⊢; subst h; simp [BT.addAlive]
+    · simp only [Ext] at h ⊢
+      obtain ⟨h1, h2⟩ := ids_addAlive w u
+      rw [h1, h2]; exact h
+  | un i l c ih => intro u h; simp [Ext] at h
+  | bin i l x y ihx ihy =>
+    intro u h
+    cases u with
+    | tip _ _ _ => simp [Ext] at h
+    | un _ _ _ => simp [Ext] at h
+    | bin i' l' x' y' =>
+      simp only [Ext] at h
+      obtain ⟨rfl, rfl, hx, hy⟩ := h
+      simp only [BT.addAlive, Ext]
+      exact ⟨trivial, trivial, ihx x' hx, ihy y' hy⟩
+
+theorem ext_splitFirst (N0 i a b : Nat) (ha : N0 ≤ a) (hb : N0 ≤ b) : ∀ (t u u' : BT), Ext N0 t u →
+    splitFirst i a b 0 u = some u' → Ext N0 t u' := by
+  intro t
+  induction t with
+  | tip j l al =>
+    intro u u' h hs
+    cases al
+    · simp only [Ext] at h; subst h
+      simp [BT.splitFirst] at hs
+    · simp only [Ext] at h ⊢
+      obtain ⟨s1, _, s3⟩ := splitFirst_ids _ _ _ _ _ _ hs
+      refine ⟨by rw [s1]; exact h.1, ?_⟩
+      intro k hk
+      rcases s3 k hk with hh | hh | hh
+      · exact h.2 k hh
+      · omega
+      · omega
+  | un j l c ih => intro u u' h; simp [Ext] at h
+  | bin j l x y ihx ihy =>
+    intro u u' h hs
+    cases u with
+    | tip _ _ _ => simp [Ext] at h
+    | un _ _ _ => simp [Ext] at h
+    | bin j' l' x' y' =>
+      simp only [Ext] at h
+      obtain ⟨rfl, rfl, hx, hy⟩ := h
+      simp only [BT.splitFirst] at hs
+      split at hs
+      · rename_i x'' hx''
+        simp at hs; subst hs
+        simp only [Ext]
+        exact ⟨trivial, trivial, ihx x' x'' hx hx'', hy⟩
+      · simp only [Option.map_eq_some_iff] at hs
+        obtain ⟨y'', hy'', rfl⟩ := hs
+        simp only [Ext]
+        exact ⟨trivial, trivial, hx, ihy y' y'' hy hy''⟩
+
+theorem ext_killFirst (N0 i : Nat) : ∀ (t u u' : BT), Ext N0 t u → killFirst i u = some u' → Ext N0 t u' := by
+  intro t
+  induction t with
+  | tip j l al =>
+    intro u u' h hs
+    cases al
+    · simp only [Ext] at h; subst h
+      simp [BT.killFirst] at hs
+    · simp only [Ext] at h ⊢
+      obtain ⟨s1, s2⟩ := killFirst_ids _ _ _ hs
+      rw [s1, s2]; exact h
+  | un j l c ih => intro u u' h; simp [Ext] at h
+  | bin j l x y ihx ihy =>
+    intro u u' h hs
+    cases u with
+    | tip _ _ _ => simp [Ext] at h
+    | un _ _ _ => simp [Ext] at h
+    | bin j' l' x' y' =>
+      simp only [Ext] at h
+      obtain ⟨rfl, rfl, hx, hy⟩ := h
+      simp only [BT.killFirst] at hs
+      split at hs
+      · rename_i x'' hx''
+        simp at hs; subst hs
+        simp only [Ext]
+        exact ⟨trivial, trivial, ihx x' x'' hx hx'', hy⟩
+      · simp only [Option.map_eq_some_iff] at hs
+        obtain ⟨y'', hy'', rfl⟩ := hs
+        simp only [Ext]
+        exact ⟨trivial, trivial, hx, ihy y' y'' hy hy''⟩
+end Aux
+
+namespace Aux
+theorem ids_head (u : BT) : u.ids = u.rootId :: u.ids.tail := by
+  cases u <;> simp [BT.ids, BT.rootId]
+
+theorem cutBack_root (i : Nat) (l : Int) (u : BT) (h : u.rootId = i) : u.cutBack i l = some (.tip i l true) := by
+  cases u <;> simp [BT.rootId] at h <;> simp [BT.cutBack, h]
+
+theorem cutBack_notin (i : Nat) (l : Int) : ∀ (u : BT), i ∉ u.ids → u.cutBack i l = none := by
+  intro u
+  induction u with
+  | tip j l0 a => intro h; simp [BT.ids] at h; simp [BT.cutBack]; omega
+  | un j l0 c ih =>
+    intro h
+    simp [BT.ids] at h
+    simp [BT.cutBack, ih h.2]; omega
+  | bin j l0 x y ihx ihy =>
+    intro h
+    simp [BT.ids] at h
+    have : ¬ j = i := by omega
+    simp [BT.cutBack, this, ihx h.2.1, ihy h.2.2]
+
+theorem aliveTips_ids : ∀ (t : BT), ∀ p ∈ t.aliveTips, p.1 ∈ t.ids := by
+  intro t
+  induction t with
+  | tip i l a => intro p hp; cases a <;> simp [BT.aliveTips] at hp; simp [BT.ids, hp]
+  | un i l c ih => intro p hp; simp [BT.ids]; right; exact ih p (by simpa [BT.aliveTips] using hp)
+  | bin i l x y ihx ihy =>
+    intro p hp
+    simp only [BT.aliveTips, List.mem_append] at hp
+    simp only [BT.ids, List.mem_cons, List.mem_append]
+    rcases hp with h | h
+    · exact Or.inr (Or.inl (ihx p h))
+    · exact Or.inr (Or.inr (ihy p h))
+
+theorem cutBackAll_append (w : Int) : ∀ (L1 L2 : List (Nat × Int)) (u : BT),
+    cutBackAll w (L1 ++ L2) u = (cutBackAll w L1 u).bind (cutBackAll w L2) := by
+  intro L1
+  induction L1 with
+  | nil => intro L2 u; simp [cutBackAll]
+  | cons p L1 ih =>
+    intro L2 u
+    obtain ⟨i, l⟩ := p
+    simp only [List.cons_append, cutBackAll]
+    cases u.cutBack i (l + w) with
+    | none => simp
+    | some u' => simpa using ih L2 u'
+
+theorem cutBackAll_binL (w : Int) (j : Nat) (l0 : Int) (y' : BT) : ∀ (L : List (Nat × Int)) (x' x'' : BT),
+    (∀ p ∈ L, p.1 ≠ j) → cutBackAll w L x' = some x'' → cutBackAll w L (.bin j l0 x' y') = some (.bin j l0 x'' y') := by
+  intro L
+  induction L with
+  | nil => intro x' x'' _ h; simp [cutBackAll] at h ⊢; exact h
+  | cons p L ih =>
+    intro x' x'' hne h
+    obtain ⟨i, l⟩ := p
+    have hij : ¬ j = i := fun e => hne (i, l) (by simp) e.symm
+    simp only [cutBackAll] at h ⊢
+    cases hc : x'.cutBack i (l + w) with
+    | none => rw [hc] at h; simp at h
+    | some x1 =>
+      rw [hc] at h
+      simp only [BT.cutBack, hij, beq_iff_eq, if_false, hc]
+      exact ih x1 x'' (fun p hp => hne p (by simp [hp])) h
+
+theorem cutBackAll_binR (w : Int) (j : Nat) (l0 : Int) (x'' : BT) : ∀ (L : List (Nat × Int)) (y' y'' : BT),
+    (∀ p ∈ L, p.1 ≠ j ∧ p.1 ∉ x''.ids) → cutBackAll w L y' = some y'' → cutBackAll w L (.bin j l0 x'' y') = some (.bin j l0 x'' y'') := by
+  intro L
+  induction L with
+  | nil => intro y' y'' _ h; simp [cutBackAll] at h ⊢; exact h
+  | cons p L ih =>
+    intro y' y'' hne h
+    obtain ⟨i, l⟩ := p
+    obtain ⟨h1, h2⟩ := hne (i, l) (by simp)
+    have hij : ¬ j = i := fun e => h1 e.symm
+    simp only [cutBackAll] at h ⊢
+    cases hc : y'.cutBack i (l + w) with
+    | none => rw [hc] at h; simp at h
+    | some y1 =>
+      rw [hc] at h
+      simp only [BT.cutBack, hij, beq_iff_eq, if_false, cutBack_notin i (l + w) x'' h2, hc, Option.map_some]
+      exact ih y1 y'' (fun p hp => hne p (by simp [hp])) h
+
+/-- **cutting back to a slice restores the tree as it stood at that slice**, lengthened by the slice's waiting time -/
+theorem cutBackAll_ext (N0 : Nat) (w : Int) : ∀ (t u : BT), t.ids.Nodup → Ext N0 t u →
+    cutBackAll w t.aliveTips u = some (t.addAlive w) := by
+  intro t
+  induction t with
+  | tip i l a =>
+    intro u _ h
+    cases a
+    · simp only [Ext] at h; subst h
+      simp [BT.aliveTips, cutBackAll, BT.addAlive]
+    · simp only [Ext] at h
+      simp [BT.aliveTips, cutBackAll, BT.addAlive, cutBack_root i (l + w) u h.1]
+  | un i l c ih => intro u _ h; simp [Ext] at h
+  | bin i l x y ihx ihy =>
+    intro u hnd h
+    cases u with
+    | tip _ _ _ => simp [Ext] at h
+    | un _ _ _ => simp [Ext] at h
+    | bin i' l' x' y' =>
+      simp only [Ext] at h
+      obtain ⟨rfl, rfl, hx, hy⟩ := h
+      simp only [BT.ids, List.nodup_cons, List.mem_append, not_or] at hnd
+      obtain ⟨⟨hix, hiy⟩, hxy⟩ := hnd
+      have hxy' := List.nodup_append.mp hxy
+      have e1 := ihx x' hxy'.1 hx
+      have e2 := ihy y' hxy'.2.1 hy
+      simp only [BT.aliveTips, BT.addAlive]
+      rw [cutBackAll_append]
+      rw [cutBackAll_binL w i l y' _ x' _ (fun p hp e => hix (e ▸ aliveTips_ids x p hp)) e1]
+      simp only [Option.bind_some]
+      apply cutBackAll_binR w i l _ _ y' _ _ e2
+      intro p hp
+      have hpy := aliveTips_ids y p hp
+      refine ⟨fun e => hiy (e ▸ hpy), ?_⟩
+      rw [(ids_addAlive w x).1]
+      intro hpx
+      exact hxy'.2.2 p.1 hpx p.1 hpy rfl
+end Aux
+
+namespace Aux
+theorem splitFirst_ids_nodup (i a b : Nat) (l0 : Int) (hab : a ≠ b) : ∀ (u u' : BT), splitFirst i a b l0 u = some u' →
+    u.ids.Nodup → a ∉ u.ids → b ∉ u.ids → u'.ids.Nodup := by
+  intro u
+  induction u with
+  | tip j l al =>
+    intro u' h hn ha hb
+    simp only [BT.splitFirst] at h
+    split at h
+    · simp at h; subst h
+      simp [BT.ids] at ha hb ⊢
+      omega
+    · simp at h
+  | un j l c ih =>
+    intro u' h hn ha hb
+    simp only [BT.splitFirst, Option.map_eq_some_iff] at h
+    obtain ⟨c', hc, rfl⟩ := h
+    simp only [BT.ids, List.nodup_cons, List.mem_cons, not_or] at hn ha hb ⊢
+    obtain ⟨_, m2, _⟩ := splitFirst_ids _ _ _ _ _ _ hc
+    refine ⟨?_, ih c' hc hn.2 ha.2 hb.2⟩
+    intro hm
+    rcases m2 j hm with h | h | h
+    · exact hn.1 h
+    · exact ha.1 h.symm
+    · exact hb.1 h.symm
+  | bin j l x y ihx ihy =>
+    intro u' h hn ha hb
+    simp only [BT.ids, List.nodup_cons, List.mem_cons, List.mem_append, not_or] at hn ha hb
+    obtain ⟨⟨hjx, hjy⟩, hxy⟩ := hn
+    obtain ⟨nx, ny, dxy⟩ := List.nodup_append.mp hxy
+    simp only [BT.splitFirst] at h
+    split at h
+    · rename_i x' hx
+      simp at h; subst h
+      obtain ⟨_, m2, _⟩ := splitFirst_ids _ _ _ _ _ _ hx
+      simp only [BT.ids, List.nodup_cons, List.mem_append, not_or]
+      refine ⟨⟨?_, hjy⟩, List.nodup_append.mpr ⟨ihx x' hx nx ha.2.1 hb.2.1, ny, ?_⟩⟩
+      · intro hm
+        rcases m2 j hm with h | h | h
+        · exact hjx h
+        · exact ha.1 h.symm
+        · exact hb.1 h.symm
+      · intro k hk k' hk' e
+        subst e
+        rcases m2 k hk with h | h | h
+        · exact dxy k h k hk' rfl
+        · exact ha.2.2 (h ▸ hk')
+        · exact hb.2.2 (h ▸ hk')
+    · simp only [Option.map_eq_some_iff] at h
+      obtain ⟨y', hy, rfl⟩ := h
+      obtain ⟨_, m2, _⟩ := splitFirst_ids _ _ _ _ _ _ hy
+      simp only [BT.ids, List.nodup_cons, List.mem_append, not_or]
+      refine ⟨⟨hjx, ?_⟩, List.nodup_append.mpr ⟨nx, ihy y' hy ny ha.2.2 hb.2.2, ?_⟩⟩
+      · intro hm
+        rcases m2 j hm with h | h | h
+        · exact hjy h
+        · exact ha.1 h.symm
+        · exact hb.1 h.symm
+      · intro k hk k' hk' e
+        subst e
+        rcases m2 k hk' with h | h | h
+        · exact dxy k hk k h rfl
+        · exact ha.2.1 (h ▸ hk)
+        · exact hb.2.1 (h ▸ hk)
+
+theorem selectSlice_mem (q : Int) : ∀ (sl : List (Int × List (Nat × Int))) (r : Int) (_sel res : Int × List (Nat × Int)) ,
+    True → ∀ (o : Option (Int × List (Nat × Int))), selectSlice q r sl o = some res → res ∈ sl ∨ o = some res := by
+  intro sl
+  induction sl with
+  | nil => intro r _ res _ o h; simp [selectSlice] at h; exact Or.inr h
+  | cons a rest ih =>
+    intro r _sel res _ o h
+    simp only [selectSlice] at h
+    rcases ih _ _sel res trivial _ h with h1 | h1
+    · exact Or.inl (by simp [h1])
+    · split at h1
+      · simp at h1; exact Or.inl (by simp [h1])
+      · exact Or.inr h1
+end Aux
+
+/-- what the loop keeps true about every recorded time slice `(w, snap)`: `snap` lists the extant tips of the tree `T` as it
+stood when the slice began, `T` had exactly `N` extant tips, all at one depth, with distinct node ids, and the current tree
+extends `T` only below `T`'s extant tips -/
+def SliceOK (N : Nat) (next : Nat) (tree : BT) (sl : Int × List (Nat × Int)) : Prop :=
+  ∃ T N0, sl.2 = T.aliveTips ∧ T.aliveCount = N ∧ (∃ D, ∀ d ∈ T.aliveDepths, d = D) ∧ T.ids.Nodup ∧ N0 ≤ next ∧ Ext N0 T tree
+
+structure GInv (N : Nat) (g : GState) : Prop where
+  count : g.st.extant.length = g.st.tree.aliveCount
+  depth : ∃ c, ∀ d ∈ g.st.tree.aliveDepths, d = g.st.total + c
+  ids : g.st.tree.ids.Nodup
+  fresh : ∀ i ∈ g.st.tree.ids, i < g.st.next
+  noUn : g.st.tree.noUn = true
+  slices : ∀ sl ∈ g.slices, SliceOK N g.st.next g.st.tree sl
+
+namespace Aux
+theorem sliceOK_step (N : Nat) (nx nx' : Nat) (t t' : BT) (sl : Int × List (Nat × Int)) (hnx : nx ≤ nx')
+    (hext : ∀ T N0, N0 ≤ nx → Ext N0 T t → Ext N0 T t') (h : SliceOK N nx t sl) : SliceOK N nx' t' sl := by
+  obtain ⟨T, N0, h1, h2, h3, h4, h5, h6⟩ := h
+  exact ⟨T, N0, h1, h2, h3, h4, by omega, hext T N0 h5 h6⟩
+
+theorem bdBirth_shape (s : BDState) (nd : Tip) (rest : List Tip) (ds : List Draw) (st : Step BDState)
+    (h : bdBirth s nd rest ds = .ok st) : ∃ t s' ds', st = .cont s' ds' ∧ s.tree.splitFirst nd.id s.next (s.next + 1) 0 = some t ∧
+      s'.tree = t ∧ s'.next = s.next + 2 ∧ s'.total = s.total ∧ s'.extant.length = rest.length + 2 := by
+  unfold bdBirth at h
+  split at h
+  · split at h
+    · simp at h
+    · rename_i t ht
+      simp at h
+      subst h
+      exact ⟨t, _, _, rfl, ht, rfl, rfl, rfl, by simp⟩
+  · simp at h
+end Aux
+
+/-- what is needed of the final state: every recorded slice is still a faithful past of the final tree -/
+def GFin (N : Nat) (g : GState) : Prop := ∀ sl ∈ g.slices, SliceOK N g.st.next g.st.tree sl
+
+namespace Aux
+theorem ginv_wait (N : Nat) (g : GState) (w : Int) (hI : GInv N g) :
+    GInv N { st := { g.st with tree := g.st.tree.addAlive w, total := g.st.total + w },
+             slices := if g.st.extant.length == N then g.slices ++ [(w, g.st.tree.aliveTips)] else g.slices } := by
+  obtain ⟨c, hc⟩ := hI.depth
+  refine ⟨by simp [aliveCount_addAlive, hI.count], ⟨c, ?_⟩, by simp [(ids_addAlive w _).1, hI.ids],
+    by simpa [(ids_addAlive w _).1] using hI.fresh, by simp [noUn_addAlive, hI.noUn], ?_⟩
+  · intro d hd
+    simp only [aliveDepths_addAlive, List.mem_map] at hd
+    obtain ⟨e, he, rfl⟩ := hd
+    have := hc e he
+    simp; omega
+  · intro sl hsl
+    have old : ∀ sl ∈ g.slices, SliceOK N g.st.next (g.st.tree.addAlive w) sl := fun sl h =>
+      sliceOK_step N _ _ _ _ sl (Nat.le_refl _) (fun T N0 _ hE => ext_addAlive N0 w T _ hE) (hI.slices sl h)
+    split at hsl
+    · rename_i hN
+      simp at hN
+      simp only [List.mem_append, List.mem_singleton] at hsl
+      rcases hsl with h | rfl
+      · exact old sl h
+      · exact ⟨g.st.tree, g.st.next, rfl, by rw [← hI.count]; exact hN, ⟨g.st.total + c, hc⟩, hI.ids, Nat.le_refl _,
+          ext_self_addAlive _ w _ hI.noUn⟩
+    · exact old sl hsl
+
+theorem ginv_event (P : BDParams) (N : Nat) (g : GState) (ds : List Draw) (hst : P.start = .tip 0 0 true) (hI : GInv N g) :
+    (∀ g' ds', gsaEvent P g ds = .ok (.cont g' ds') → GInv N g') ∧ (∀ g' ds', gsaEvent P g ds = .ok (.done g' ds') → GFin N g') := by
+  unfold gsaEvent
+  split
+  · simp
+  · split
+    · simp
+    split
+    · simp
+    · split
+      · simp
+      · rename_i nd hnd
+        have hmem : ∃ t ∈ g.st.extant, t.id = nd.id := ⟨nd, List.mem_of_getElem? hnd, rfl⟩
+        have hrm := removeTip_length nd.id g.st.extant hmem
+        obtain ⟨c, hc⟩ := hI.depth
+        split
+        · -- birth
+          split
+          · simp
+          · rename_i s ds2 hb
+            obtain ⟨t, s', ds'', e1, ht, e2, e3, e4, e5⟩ := bdBirth_shape _ _ _ _ _ hb
+            simp at e1
+            obtain ⟨rfl, rfl⟩ := e1
+            refine ⟨?_, by simp⟩
+            intro g' ds' h
+            simp at h
+            obtain ⟨rfl, _⟩ := h
+            obtain ⟨_, m2, _⟩ := splitFirst_ids _ _ _ _ _ _ ht
+            have hfa : g.st.next ∉ g.st.tree.ids := fun hm => by have := hI.fresh _ hm; omega
+            have hfb : g.st.next + 1 ∉ g.st.tree.ids := fun hm => by have := hI.fresh _ hm; omega
+            refine ⟨?_, ⟨c, ?_⟩, ?_, ?_, ?_, ?_⟩
+            · simp only [e2, e5, splitFirst_aliveCount _ _ _ _ _ _ ht]; have := hI.count; omega
+            · intro d hd
+              simp only [e2, e4] at hd ⊢
+              exact hc d (splitFirst_depths _ _ _ _ _ ht d hd)
+            · simp only [e2]
+              exact splitFirst_ids_nodup _ _ _ _ (by omega) _ _ ht hI.ids hfa hfb
+            · intro i hi
+              simp only [e2, e3] at hi ⊢
+              rcases m2 i hi with h | h | h
+              · have := hI.fresh i h; omega
+              · omega
+              · omega
+            · simp only [e2, (splitFirst_more _ _ _ _ _ ht).2.1, hI.noUn]
+            · intro sl hsl
+              simp only [e2, e3]
+              exact sliceOK_step N _ _ _ _ sl (by omega)
+                (fun T N0 h0 hE => ext_splitFirst N0 _ _ _ (by omega) (by omega) T _ _ hE ht) (hI.slices sl hsl)
+          · rename_i s ds2 hb
+            obtain ⟨t, s', ds'', e1, _⟩ := bdBirth_shape _ _ _ _ _ hb
+            simp at e1
+        · -- death
+          unfold gsaDeath
+          split
+          · split
+            · refine ⟨by simp, ?_⟩
+              intro g' ds' h
+              simp at h
+              obtain ⟨rfl, _⟩ := h
+              exact fun sl hsl => hI.slices sl hsl
+            · rename_i hse
+              refine ⟨?_, by simp⟩
+              intro g' ds' h
+              simp at h
+              obtain ⟨rfl, _⟩ := h
+              have hpos : 0 < g.st.next := by
+                have := hI.fresh g.st.tree.rootId (by rw [ids_head]; simp)
+                omega
+              simp at hse
+              refine ⟨by simp [bdRestart, bdInit, hst, BT.aliveIds, BT.aliveCount], ⟨0, by simp [bdRestart, bdInit, hst, BT.aliveDepths]⟩,
+                by simp [bdRestart, bdInit, hst, BT.ids], by simpa [bdRestart, bdInit, hst, BT.ids] using hpos,
+                by simp [bdRestart, bdInit, hst, BT.noUn], by simp [hse]⟩
+          · split
+            · simp
+            · rename_i t ht
+              refine ⟨?_, by simp⟩
+              intro g' ds' h
+              simp at h
+              obtain ⟨rfl, _⟩ := h
+              obtain ⟨k1, k2⟩ := killFirst_ids _ _ _ ht
+              refine ⟨?_, ⟨c, ?_⟩, by simpa [k2] using hI.ids, by simpa [k2] using hI.fresh,
+                by simp [(killFirst_more _ _ _ ht).2.1, hI.noUn], ?_⟩
+              · have := killFirst_aliveCount _ _ _ ht
+                have := hI.count
+                simp; omega
+              · intro d hd
+                exact hc d (killFirst_depths _ _ _ ht d hd)
+              · intro sl hsl
+                exact sliceOK_step N _ _ _ _ sl (Nat.le_refl _)
+                  (fun T N0 _ hE => ext_killFirst N0 _ T _ _ hE ht) (hI.slices sl hsl)
+  · simp
+
+theorem ginv_iter (P : BDParams) (N G : Nat) (g : GState) (ds : List Draw) (hst : P.start = .tip 0 0 true) (hI : GInv N g) :
+    (∀ g' ds', gsaIter P N G g ds = .ok (.cont g' ds') → GInv N g') ∧ (∀ g' ds', gsaIter P N G g ds = .ok (.done g' ds') → GFin N g') := by
+  unfold gsaIter
+  split
+  · refine ⟨by simp, ?_⟩
+    intro g' ds' h
+    simp at h
+    obtain ⟨rfl, _⟩ := h
+    exact fun sl hsl => hI.slices sl hsl
+  · split
+    · simp
+    · rename_i w ds1
+      split
+      · simp
+      · have h1 := ginv_wait N g w hI
+        simp only
+        split
+        · exact ginv_event P N _ ds1 hst h1
+        · refine ⟨?_, by simp⟩
+          intro g' ds' h
+          simp at h
+          obtain ⟨rfl, _⟩ := h
+          simpa using h1
+    · simp
+
+theorem ginv_loop (P : BDParams) (N G : Nat) (hst : P.start = .tip 0 0 true) : ∀ (f : Nat) (g g' : GState) (ds ds' : List Draw),
+    GInv N g → gsaLoop P N G f g ds = .ok (g', ds') → GFin N g' := by
+  intro f
+  induction f with
+  | zero => intro g g' ds ds' _ h; simp [gsaLoop] at h
+  | succ f ih =>
+    intro g g' ds ds' hI h
+    obtain ⟨h1, h2⟩ := ginv_iter P N G g ds hst hI
+    simp only [gsaLoop] at h
+    split at h
+    · simp at h
+    · rename_i g1 ds1 hit
+      simp at h
+      obtain ⟨rfl, _⟩ := h
+      exact h2 g1 ds1 hit
+    · rename_i g1 ds1 hit
+      exact ih g1 g' ds1 ds' (h1 g1 ds1 hit) h
+end Aux
+
+/-- **GSA result** (fresh start tree): whenever the code returns a tree (it raises in the case `gsaCrashAt` describes), the tree has
+exactly `N` leaves, all extant and all at one depth, no unary node, and pairwise distinct taxa — for every draw list.
+The proof shows that cutting the final tree back to the selected slice yields the tree exactly as it stood at that slice, plus
+the slice's waiting time (`Aux.cutBackAll_ext`). -/
+theorem gsa_result (P : BDParams) (N G n0 : Nat) (ds : List Draw) (r : SimResult) (hst : P.start = .tip 0 0 true)
+    (h : gsaRun P N G n0 ds = .ok (some r)) :
+    r.tree.nLeaves = N ∧ r.tree.aliveCount = N ∧ r.tree.noUn = true ∧ (∃ D, ∀ d ∈ r.tree.aliveDepths, d = D) ∧
+    (r.taxa.map Prod.snd).Nodup ∧ isPerm r.tree.nLeaves (r.taxa.map Prod.fst) = true := by
+  unfold gsaRun at h
+  split at h
+  · simp at h
+  split at h
+  · simp at h
+  · rename_i g rest hl
+    have h0 : GInv N { st := bdInit P, slices := [] } :=
+      ⟨by simp [bdInit, hst, BT.aliveIds, BT.aliveCount], ⟨0, by simp [bdInit, hst, BT.aliveDepths]⟩, by simp [bdInit, hst, BT.ids],
+       by simp [bdInit, hst, BT.ids, BT.maxId], by simp [bdInit, hst, BT.noUn], by simp⟩
+    have hfin := Aux.ginv_loop P N G hst _ _ _ _ _ h0 hl
+    split at h
+    · split at h
+      · simp at h
+      simp only at h
+      split at h
+      · simp at h
+      · rename_i w snap hsel
+        split at h
+        · simp at h
+        split at h
+        · simp at h
+        · rename_i t hcut
+          split at h
+          · simp at h
+          · rename_i r' hf
+            simp at h; subst h
+            have hmem : (w, snap) ∈ g.slices := by
+              rcases Aux.selectSlice_mem _ _ _ (w, snap) (w, snap) trivial none hsel with h | h
+              · exact h
+              · simp at h
+            obtain ⟨T, N0, e1, e2, ⟨D, e3⟩, e4, _, e6⟩ := hfin (w, snap) hmem
+            simp only at e1
+            subst e1
+            rw [Aux.cutBackAll_ext N0 w T g.st.tree e4 e6] at hcut
+            simp at hcut; subst hcut
+            obtain ⟨f1, f2, f3, f4, f5, f6⟩ := Aux.finish_props _ _ _ _ hf
+            refine ⟨by rw [f2, Aux.aliveCount_addAlive, e2], by rw [f3, f2, Aux.aliveCount_addAlive, e2], f1, ⟨D + w, ?_⟩, f5, f6⟩
+            intro d hd
+            rw [f4, Aux.aliveDepths_addAlive] at hd
+            simp only [List.mem_map] at hd
+            obtain ⟨e, he, rfl⟩ := hd
+            rw [e3 e he]
+    · simp at h
+    · simp at h
+
+/-- non-vacuity: N = 2, G = 3: two slices (waiting times 2 and 3 with two extant tips), a death in between; cut back to the last -/
+example : (match gsaRun { nTips := some 2, maxTime := none, b := 2, d := 1 } 2 3 0
+    [.w 4, .u 1 8, .g 0, .g 0, .g 0, .g 0, .w 2, .u 1 8, .g 0, .g 0, .g 0, .g 0, .u 1 2, .perm [], .perm [0, 1]] with
+    | .ok (some r) => some (r.tree.nLeaves, r.tree.aliveDepths) | _ => none) = some (2, [6, 6]) := by decide
+
+
+/-! ### extension round: `discrete_birth_death_tree` -/
+
+
+/-- what a generation keeps true of a (sub)tree: every tip is a live leaf, no unary node, all leaves at one depth -/
+structure DOK (D : Int) (t : BT) : Prop where
+  alive : t.aliveCount = t.nLeaves
+  noUn : t.noUn = true
+  depth : ∀ d ∈ t.aliveDepths, d = D
+
+namespace Aux
+theorem dok_addLen (D l : Int) (t : BT) (h : DOK D t) : DOK (D + l) (t.addLen l) := by
+  obtain ⟨a1, a2, a3, a4⟩ := addLen_props l t
+  refine ⟨by rw [a2, a1]; exact h.alive, by rw [a3]; exact h.noUn, ?_⟩
+  intro d hd
+  rw [a4] at hd
+  simp only [List.mem_map] at hd
+  obtain ⟨e, he, rfl⟩ := hd
+  rw [h.depth e he]
+
+theorem dok_bin_inv (D : Int) (i : Nat) (l : Int) (x y : BT) (h : DOK D (.bin i l x y)) : DOK (D - l) x ∧ DOK (D - l) y := by
+  obtain ⟨ha, hn, hd⟩ := h
+  simp only [BT.aliveCount, BT.nLeaves] at ha
+  simp [BT.noUn] at hn
+  have hx := aliveCount_le x
+  have hy := aliveCount_le y
+  refine ⟨⟨by omega, hn.1, ?_⟩, ⟨by omega, hn.2, ?_⟩⟩
+  · intro d hdx
+    have := hd (d + l) (by simp only [BT.aliveDepths, List.mem_map, List.mem_append]; exact ⟨d, Or.inl hdx, rfl⟩)
+    omega
+  · intro d hdy
+    have := hd (d + l) (by simp only [BT.aliveDepths, List.mem_map, List.mem_append]; exact ⟨d, Or.inr hdy, rfl⟩)
+    omega
+
+theorem dok_bin (D : Int) (i : Nat) (l : Int) (x y : BT) (hx : DOK (D - l) x) (hy : DOK (D - l) y) : DOK D (.bin i l x y) := by
+  refine ⟨by simp [BT.aliveCount, BT.nLeaves, hx.alive, hy.alive], by simp [BT.noUn, hx.noUn, hy.noUn], ?_⟩
+  intro d hd
+  simp only [BT.aliveDepths, List.mem_map, List.mem_append] at hd
+  obtain ⟨e, he, rfl⟩ := hd
+  rcases he with h | h
+  · rw [hx.depth e h]; omega
+  · rw [hy.depth e h]; omega
+
+/-- one generation moves every leaf exactly one generation down, whatever the draws -/
+theorem genPass_ok (P : DParams) : ∀ (t : BT) (outside : Bool) (next : Nat) (ds : List Draw) (t' : BT) (r : Bool) (next' : Nat)
+    (ds' : List Draw) (D : Int), genPass P outside t next ds = .ok (.tree (some t') r, next', ds') → DOK D t →
+    DOK (D + 1) t' := by
+  intro t
+  induction t with
+  | tip i l a =>
+    intro outside next ds t' r next' ds' D h hD
+    have ha : a = true := by
+      have := hD.alive
+      cases a <;> simp [BT.aliveCount, BT.nLeaves] at this ⊢
+    subst ha
+    have hl : l = D := hD.depth l (by simp [BT.aliveDepths])
+    simp only [genPass] at h
+    split at h
+    · simp at h
+    · split at h
+      · simp at h
+      split at h
+      · split at h
+        · simp at h
+          obtain ⟨⟨rfl, _⟩, _, rfl⟩ := h
+          refine ⟨by simp [BT.aliveCount, BT.nLeaves], by simp [BT.noUn], ?_⟩
+          intro d hd
+          simp [BT.aliveDepths] at hd
+          omega
+        · simp at h
+      · split at h
+        · split at h
+          · simp at h
+          · split at h
+            · simp at h
+              obtain ⟨⟨rfl, _⟩, _, rfl⟩ := h
+              refine ⟨by simp [BT.aliveCount, BT.nLeaves], by simp [BT.noUn], ?_⟩
+              intro d hd
+              simp [BT.aliveDepths] at hd
+              omega
+            · simp at h
+        · simp at h
+          obtain ⟨⟨rfl, _⟩, _, rfl⟩ := h
+          refine ⟨by simp [BT.aliveCount, BT.nLeaves], by simp [BT.noUn], ?_⟩
+          intro d hd
+          simp [BT.aliveDepths] at hd
+          omega
+    · simp at h
+  | un i l c ih =>
+    intro outside next ds t' r next' ds' D h hD
+    have := hD.noUn
+    simp [BT.noUn] at this
+  | bin i l x y ihx ihy =>
+    intro outside next ds t' r next' ds' D h hD
+    obtain ⟨hx, hy⟩ := dok_bin_inv D i l x y hD
+    simp only [genPass] at h
+    split at h
+    · simp at h
+    · simp at h
+    · rename_i x' r1 n1 ds1 hpx
+      split at h
+      · simp at h
+      · simp at h
+      · rename_i y' r2 n2 ds2 hpy
+        simp at h
+        obtain ⟨⟨hcomb, _⟩, _, rfl⟩ := h
+        have e : D - l + 1 + l = D + 1 := by omega
+        have e2 : D + 1 - l = D - l + 1 := by omega
+        cases x' with
+        | none =>
+          cases y' with
+          | none => simp at hcomb
+          | some b =>
+            simp at hcomb; subst hcomb
+            have k1 := ihy _ _ _ _ _ _ _ (D - l) hpy hy
+            have := dok_addLen (D - l + 1) l b k1
+            rw [e] at this
+            exact this
+        | some a =>
+          have j1 := ihx _ _ _ _ _ _ _ (D - l) hpx hx
+          cases y' with
+          | none =>
+            simp at hcomb; subst hcomb
+            have := dok_addLen (D - l + 1) l a j1
+            rw [e] at this
+            exact this
+          | some b =>
+            simp at hcomb; subst hcomb
+            have k1 := ihy _ _ _ _ _ _ _ (D - l) hpy hy
+            exact dok_bin (D + 1) i l a b (by rw [e2]; exact j1) (by rw [e2]; exact k1)
+end Aux
+
+namespace Aux
+theorem dbdLoop_ok (P : DParams) : ∀ (f : Nat) (s s' : DState) (ds ds' : List Draw) (D : Int), DOK D s.tree →
+    dbdLoop P f s ds = .ok (some s', ds') →
+    (∃ D', DOK D' s'.tree) ∧ dbdGo P s' = false := by
+  intro f
+  induction f with
+  | zero => intro s s' ds ds' D _ h; simp [dbdLoop] at h
+  | succ f ih =>
+    intro s s' ds ds' D hD h
+    simp only [dbdLoop] at h
+    split at h
+    · split at h
+      · simp at h
+      · simp at h
+      · simp at h
+      · rename_i t r next ds1 hp
+        exact ih _ s' ds1 ds' (D + 1) (genPass_ok P _ _ _ _ _ _ _ _ D hp hD) h
+    · rename_i hstop
+      simp at h
+      obtain ⟨rfl, _⟩ := h
+      exact ⟨⟨D, hD⟩, by simpa using hstop⟩
+end Aux
+
+/-- **discrete birth–death trees** (constant rates), every draw list: whenever a tree is returned (the alternative is the
+documented `TreeSimTotalExtinctionException`), every leaf is a live tip, no node is unary, all leaves are at one depth
+(the same number of generations from the root), leaf `j` carries taxon `j`; and with `ntax = n` as the only stopping
+rule the tree has AT LEAST `n` leaves (several lineages may split in the last generation — exactly `n` is not guaranteed) -/
+theorem dbd_result (P : DParams) (ds : List Draw) (r : SimResult) (h : dbdRun P ds = .ok (some r)) :
+    r.tree.aliveCount = r.tree.nLeaves ∧ r.tree.noUn = true ∧ (∃ D, ∀ d ∈ r.tree.aliveDepths, d = D) ∧
+    r.taxa = (List.range r.tree.nLeaves).map (fun j => (j, j)) ∧
+    (∀ n, P.ntax = some n → P.maxGens = none → n ≤ r.tree.nLeaves) := by
+  unfold dbdRun at h
+  split at h
+  · simp at h
+  · simp at h
+  · rename_i s rest hl
+    have h0 : DOK 0 (BT.tip 0 0 true) := ⟨by simp [BT.aliveCount, BT.nLeaves], by simp [BT.noUn], by simp [BT.aliveDepths]⟩
+    obtain ⟨⟨D, hD⟩, hstop⟩ := Aux.dbdLoop_ok P _ _ s ds rest 0 h0 hl
+    split at h
+    · simp at h
+    · rename_i k hk
+      simp at h; subst h
+      refine ⟨by simp [Aux.aliveCount_addAlive, Aux.nLeaves_addAlive, hD.alive], by simp [Aux.noUn_addAlive, hD.noUn], ⟨D + k, ?_⟩, rfl, ?_⟩
+      · intro d hd
+        simp only [Aux.aliveDepths_addAlive, List.mem_map] at hd
+        obtain ⟨e, he, rfl⟩ := hd
+        rw [hD.depth e he]
+      · intro n hn hm
+        simp [dbdGo, hn, hm] at hstop
+        simpa [Aux.nLeaves_addAlive] using hstop
+    · simp at h
+
+/-- non-vacuity: birth 1/2, death 1/4: a birth, then one daughter splits and the other dies (its sister clade absorbs the
+parent's edge), then nothing happens; 3 ≥ `ntax = 3` leaves after 3 generations … here 2 generations suffice -/
+example : (match dbdRun { b := 2, d := 1, rs := 4, ntax := some 3, maxGens := none, repeatOK := false }
+    [.u 1 8, .g 0, .g 0, .g 0, .g 0, .u 1 8, .g 0, .g 0, .g 0, .g 0, .u 1 8, .g 0, .g 0, .g 0, .g 0, .u 1 8] with
+    | .ok (some r) => some (r.tree.nLeaves, r.tree.aliveDepths) | _ => none) = some (4, [2, 2, 2, 2]) := by decide
+
+example : (match dbdRun { b := 2, d := 1, rs := 4, ntax := some 3, maxGens := none, repeatOK := false } [.u 5 8] with
+    | .ok none => true | _ => false) = true := by decide
 
 end DendroModel.C18
